@@ -1,6 +1,6 @@
 (* C12 — lemmas.  Part A: generic facts about the scanners on plain strings. *)
 From Coq Require Import ZArith List Bool Lia ZifyBool.
-From Verif Require Import C12.Impl C12.Spec.
+From Verif Require Import C12.Impl C12.Spec C12.Model.
 Import ListNotations.
 Open Scope Z_scope.
 
@@ -186,6 +186,29 @@ Lemma no_default : needs_open (m_default idz). Proof. no_open. Qed.
 (* ------------------------------------------------------------------ *)
 (* C. a scanner over the print of a list of well-formed leaves           *)
 
+(* [leaf_sc]: what a pass needs of a leaf of the partially rendered text ("scannable"):
+   like Spec.leaf_wf, but substituted text only has to be brace-free (it may contain the
+   shielding sentinels). *)
+Definition leaf_sc (l : leaf) : bool :=
+  match l with
+  | LText s => nobrace s
+  | LVar x | LOpt x | LInc x => word x
+  | LDot => true
+  | LPipe x w => word x && nonempty w && nobrace w && (negb (is_filter w) || modelled_filter w)
+  end.
+
+Lemma clean_nobrace : forall s, clean s = true -> nobrace s = true.
+Proof. unfold clean. intros s H. apply andb_prop in H. tauto. Qed.
+Lemma clean_nosent : forall s, clean s = true -> nosent s = true.
+Proof. unfold clean. intros s H. apply andb_prop in H. tauto. Qed.
+
+Lemma wf_sc : forall l, leaf_wf l = true -> leaf_sc l = true.
+Proof.
+  intros [s|x| |x|x w|x] H; cbn in *; auto using clean_nobrace.
+  apply andb_prop in H. destruct H as [H Hf]. apply andb_prop in H. destruct H as [H Hc].
+  rewrite H, Hf, (clean_nobrace w Hc). reflexivity.
+Qed.
+
 (* what the scanners need to know about a leaf: brace-free text, or one construct
    {{ i0 inner }} whose only "{" are the two opening ones.  Besides the well-formed
    leaves this also covers the block delimiters, read as pseudo-leaves (section J). *)
@@ -194,10 +217,10 @@ Definition shaped (l : leaf) : Prop :=
   ((forall s, l <> LText s) /\
    exists i0 inner, print_leaf l = LB :: LB :: i0 :: inner ++ [RB; RB] /\ i0 <> LB /\ nolb inner).
 
-Lemma leaf_shape : forall l, leaf_wf l = true -> shaped l.
+Lemma leaf_shape : forall l, leaf_sc l = true -> shaped l.
 Proof.
   unfold shaped.
-  intros [s|x| |x|x w|x] H; cbn [leaf_wf] in H; [|right; split; [discriminate|]..]; [| | | | |].
+  intros [s|x| |x|x w|x] H; cbn [leaf_sc] in H; [|right; split; [discriminate|]..]; [| | | | |].
   - left. eauto.
   - destruct (word_cons x H) as (x0 & x' & -> & H0 & H1).
     exists x0, x'. split; [reflexivity|]. split.
@@ -368,7 +391,7 @@ Proof.
   intros x w s Hx Hne Hnb. rewrite pr_pipe, len_pipe. unfold m_default. cbn -[span].
   rewrite span_app; auto using word_forall. rewrite word_nonempty by auto. cbn -[span].
   rewrite (span_app (fun c => negb (c =? RB)) w 125 (125 :: s)).
-  - rewrite Hne. cbn. rewrite codes_idz. reflexivity.
+  - rewrite Hne. cbn. rewrite !codes_idz. reflexivity.
   - apply forallb_forall. intros c Hc. destruct (nobrace_forall _ c Hnb Hc). unfold RB in *. lia.
   - reflexivity.
 Qed.
@@ -384,7 +407,7 @@ Definition act_def (l : leaf) : option (str * str) :=
   match l with LPipe x w => Some (x, w) | _ => None end.
 
 Ltac leaf_kind l H :=
-  destruct l as [t|x| |x|x w|x]; cbn [leaf_wf] in H;
+  destruct l as [t|x| |x|x w|x]; cbn [leaf_sc] in H;
   try (destruct (word_cons x H) as (x0 & x' & -> & Hx0 & Hx'); pose proof (is_word_facts x0 Hx0)).
 
 Lemma pr_cons_var : forall x0 x' s, print_leaf (LVar (x0 :: x')) ++ s = 123 :: 123 :: x0 :: x' ++ 125 :: 125 :: s.
@@ -393,15 +416,15 @@ Lemma pr_cons_pipe : forall x0 x' w s,
   print_leaf (LPipe (x0 :: x') w) ++ s = 123 :: 123 :: x0 :: x' ++ 124 :: w ++ 125 :: 125 :: s.
 Proof. intros. rewrite pr_pipe. reflexivity. Qed.
 
-Lemma pipe_wf : forall x w, leaf_wf (LPipe x w) = true ->
+Lemma pipe_wf : forall x w, leaf_sc (LPipe x w) = true ->
   word x = true /\ nonempty w = true /\ nobrace w = true /\ (negb (is_filter w) || modelled_filter w = true).
 Proof.
-  intros x w H. cbn [leaf_wf] in H.
+  intros x w H. cbn [leaf_sc] in H.
   apply andb_prop in H. destruct H as [H Hf]. apply andb_prop in H. destruct H as [H Hnb].
   apply andb_prop in H. destruct H as [H Hne]. auto.
 Qed.
 
-Lemma agrees_if : forall l, leaf_wf l = true -> agrees _ (m_if idz) act_none l.
+Lemma agrees_if : forall l, leaf_sc l = true -> agrees _ (m_if idz) act_none l.
 Proof.
   intros l H s. unfold act_none. destruct l as [t|x| |x|x w|x]; cbv beta iota; [exact I| | | | | ].
   - destruct (word_cons x H) as (x0 & x' & -> & Hx0 & Hx'). pose proof (is_word_facts x0 Hx0).
@@ -414,7 +437,7 @@ Proof.
   - rewrite pr_inc. apply m_if_kind. lia.
 Qed.
 
-Lemma agrees_each : forall l, leaf_wf l = true -> agrees _ (m_each idz) act_none l.
+Lemma agrees_each : forall l, leaf_sc l = true -> agrees _ (m_each idz) act_none l.
 Proof.
   intros l H s. unfold act_none. destruct l as [t|x| |x|x w|x]; cbv beta iota; [exact I| | | | | ].
   - destruct (word_cons x H) as (x0 & x' & -> & Hx0 & Hx'). pose proof (is_word_facts x0 Hx0).
@@ -427,7 +450,7 @@ Proof.
   - rewrite pr_inc. apply m_each_kind. lia.
 Qed.
 
-Lemma agrees_include : forall l, leaf_wf l = true -> agrees _ (m_include idz) act_inc l.
+Lemma agrees_include : forall l, leaf_sc l = true -> agrees _ (m_include idz) act_inc l.
 Proof.
   intros l H s. destruct l as [t|x| |x|x w|x]; cbn [act_inc]; cbv beta iota; [exact I| | | | | ].
   - destruct (word_cons x H) as (x0 & x' & -> & Hx0 & Hx'). pose proof (is_word_facts x0 Hx0).
@@ -440,7 +463,7 @@ Proof.
   - split. apply m_include_inc; auto. discriminate.
 Qed.
 
-Lemma agrees_optional : forall l, leaf_wf l = true -> agrees _ (m_optional idz) act_opt l.
+Lemma agrees_optional : forall l, leaf_sc l = true -> agrees _ (m_optional idz) act_opt l.
 Proof.
   intros l H s. destruct l as [t|x| |x|x w|x]; cbn [act_opt]; cbv beta iota; [exact I| | | | | ].
   - destruct (word_cons x H) as (x0 & x' & -> & Hx0 & Hx'). pose proof (is_word_facts x0 Hx0).
@@ -453,7 +476,7 @@ Proof.
   - rewrite pr_inc. apply m_optional_kind. lia.
 Qed.
 
-Lemma agrees_simple : forall l, leaf_wf l = true -> agrees _ (m_simple idz) act_var l.
+Lemma agrees_simple : forall l, leaf_sc l = true -> agrees _ (m_simple idz) act_var l.
 Proof.
   intros l H s. destruct l as [t|x| |x|x w|x]; cbn [act_var]; cbv beta iota; [exact I| | | | | ].
   - split. apply m_simple_var; auto. discriminate.
@@ -463,7 +486,7 @@ Proof.
   - rewrite pr_inc. apply m_simple_kind. reflexivity.
 Qed.
 
-Lemma agrees_filtered : forall l, leaf_wf l = true -> agrees _ (m_filtered idz) act_filt l.
+Lemma agrees_filtered : forall l, leaf_sc l = true -> agrees _ (m_filtered idz) act_filt l.
 Proof.
   intros l H s. destruct l as [t|x| |x|x w|x]; cbn [act_filt]; cbv beta iota; [exact I| | | | | ].
   - apply m_filtered_var; auto.
@@ -476,7 +499,7 @@ Proof.
   - rewrite pr_inc. apply m_filtered_kind. reflexivity.
 Qed.
 
-Lemma agrees_default : forall l, leaf_wf l = true -> agrees _ (m_default idz) act_def l.
+Lemma agrees_default : forall l, leaf_sc l = true -> agrees _ (m_default idz) act_def l.
 Proof.
   intros l H s. destruct l as [t|x| |x|x w|x]; cbn [act_def]; cbv beta iota; [exact I| | | | | ].
   - apply m_default_var; auto.
@@ -490,7 +513,7 @@ Qed.
 (* ------------------------------------------------------------------ *)
 (* E. whole passes over printed leaves                                   *)
 
-Definition wf_leaves (ls : list leaf) : Prop := Forall (fun l => leaf_wf l = true) ls.
+Definition wf_leaves (ls : list leaf) : Prop := Forall (fun l => leaf_sc l = true) ls.
 
 Lemma scan_shaped_nil : forall {M} (mt : list Z -> option (M * nat)) act ls,
   needs_open mt -> Forall (fun l => shaped l /\ agrees M mt act l) ls ->
@@ -502,7 +525,7 @@ Proof.
 Qed.
 
 Lemma scan_leaves_nil : forall {M} (mt : list Z -> option (M * nat)) act ls,
-  needs_open mt -> wf_leaves ls -> (forall l, leaf_wf l = true -> agrees M mt act l) ->
+  needs_open mt -> wf_leaves ls -> (forall l, leaf_sc l = true -> agrees M mt act l) ->
   scan mt O (print_leaves ls) = flat_map (leaf_toks M act) ls.
 Proof.
   intros M mt act ls Ho Hwf Hag. apply scan_shaped_nil; auto.
@@ -560,8 +583,8 @@ Qed.
 Definition filt_text (c : ctx) (x w : str) : option str :=
   match lookup c x with
   | Some v => if is_filter w then
-                match apply_filter w v with inl s => Some s | inr _ => None end
-              else Some (str_value v)
+                match apply_filter w v with inl s => Some (shield s) | inr _ => None end
+              else Some (shield (str_value v))
   | None => None
   end.
 Definition filt_leaf (c : ctx) (l : leaf) : leaf :=
@@ -574,17 +597,17 @@ Definition filt_leaf (c : ctx) (l : leaf) : leaf :=
 Definition def_leaf (c : ctx) (l : leaf) : leaf :=
   match l with
   | LPipe x w => if is_filter w then l
-                 else LText (match lookup c x with Some v => str_value v | None => w end)
+                 else LText (shield (match lookup c x with Some v => str_value v | None => w end))
   | _ => l
   end.
 Definition opt_leaf (c : ctx) (l : leaf) : leaf :=
   match l with
-  | LOpt x => LText (match lookup c x with Some v => str_value v | None => [] end)
+  | LOpt x => LText (shield (match lookup c x with Some v => str_value v | None => [] end))
   | _ => l
   end.
 Definition simple_leaf (c : ctx) (l : leaf) : leaf :=
   match l with
-  | LVar x => match lookup c x with Some v => LText (str_value v) | None => l end
+  | LVar x => match lookup c x with Some v => LText (shield (str_value v)) | None => l end
   | _ => l
   end.
 
@@ -599,7 +622,7 @@ Proof.
   rewrite subst_leaf_toks. reflexivity.
 Qed.
 
-Lemma pass_each_leaves : forall c ls, wf_leaves ls -> pass_each c (print_leaves ls) = print_leaves ls.
+Lemma pass_each_leaves : forall c ls, wf_leaves ls -> pass_each false c (print_leaves ls) = print_leaves ls.
 Proof.
   intros. unfold pass_each.
   rewrite (scan_leaves_nil (m_each idz) act_none ls no_each H agrees_each).
@@ -607,7 +630,7 @@ Proof.
 Qed.
 
 Lemma pass_optional_leaves : forall c ls, wf_leaves ls ->
-  pass_optional c (print_leaves ls) = print_leaves (map (opt_leaf c) ls).
+  pass_optional false c (print_leaves ls) = print_leaves (map (opt_leaf c) ls).
 Proof.
   intros. unfold pass_optional.
   rewrite (scan_leaves_nil (m_optional idz) act_opt ls no_optional H agrees_optional).
@@ -616,12 +639,26 @@ Proof.
 Qed.
 
 Lemma pass_simple_leaves : forall c ls, wf_leaves ls ->
-  pass_simple c (print_leaves ls) = print_leaves (map (simple_leaf c) ls).
+  pass_simple false false c (print_leaves ls) = inl (print_leaves (map (simple_leaf c) ls)).
 Proof.
   intros. unfold pass_simple.
   rewrite (scan_leaves_nil (m_simple idz) act_var ls no_simple H agrees_simple).
-  rewrite subst_leaf_toks, print_leaves_map. apply flat_map_ext.
-  intros [ |x| | | | ]; try reflexivity. cbn. destruct (lookup c x); reflexivity.
+  rewrite print_leaves_map. apply subst_err_leaf_toks.
+  intros l Hl. destruct l as [ |x| | | | ]; try reflexivity. cbn. destruct (lookup c x); reflexivity.
+Qed.
+
+Definition var_ok (raise : bool) (c : ctx) (l : leaf) : Prop :=
+  match l with LVar x => raise = true -> lookup c x <> None | _ => True end.
+
+Lemma pass_simple_leaves_gen : forall raise c ls, wf_leaves ls -> Forall (var_ok raise c) ls ->
+  pass_simple false raise c (print_leaves ls) = inl (print_leaves (map (simple_leaf c) ls)).
+Proof.
+  intros raise c ls H Hv. unfold pass_simple.
+  rewrite (scan_leaves_nil (m_simple idz) act_var ls no_simple H agrees_simple).
+  rewrite print_leaves_map. apply subst_err_leaf_toks.
+  intros l Hl. rewrite Forall_forall in Hv. specialize (Hv l Hl).
+  destruct l as [ |x| | | | ]; try reflexivity. cbn in *. destruct (lookup c x); [reflexivity|].
+  destruct raise; [exfalso; apply Hv; auto|reflexivity].
 Qed.
 
 (* ------------------------------------------------------------------ *)
@@ -686,9 +723,9 @@ Qed.
 Lemma nobrace_not_in : forall w, nobrace w = true -> ~ In 125 w.
 Proof. intros w H Hin. destruct (nobrace_forall w 125 H Hin). unfold RB in *. lia. Qed.
 
-Lemma inner_norb : forall l, leaf_wf l = true -> ~ In 125 (inner l).
+Lemma inner_norb : forall l, leaf_sc l = true -> ~ In 125 (inner l).
 Proof.
-  intros [t|x| |x|x w|x] H; cbn [inner leaf_wf] in *.
+  intros [t|x| |x|x w|x] H; cbn [inner leaf_sc] in *.
   - auto.
   - apply word_not_in; auto using word_forall.
   - cbn. intros [E|[]]. lia.
@@ -704,7 +741,7 @@ Qed.
 Definition leaf_is_pipe (x w : str) (l : leaf) : bool :=
   match l with LPipe y u => str_eqb y x && str_eqb u w | _ => false end.
 
-Lemma inner_pipe_inj : forall l x w, leaf_wf l = true -> is_text l = false -> word x = true ->
+Lemma inner_pipe_inj : forall l x w, leaf_sc l = true -> is_text l = false -> word x = true ->
   inner l = x ++ 124 :: w -> l = LPipe x w.
 Proof.
   intros l x w Hwf Ht Hx E.
@@ -729,7 +766,7 @@ Proof.
 Qed.
 
 Lemma prefix_pipe : forall l x w s r,
-  leaf_wf l = true -> leaf_wf (LPipe x w) = true -> is_text l = false ->
+  leaf_sc l = true -> leaf_sc (LPipe x w) = true -> is_text l = false ->
   print_leaf l ++ s = print_leaf (LPipe x w) ++ r -> l = LPipe x w.
 Proof.
   intros l x w s r Hl Hp Ht E. destruct (pipe_wf x w Hp) as (Hx & _).
@@ -743,7 +780,7 @@ Qed.
 Definition act_lit (x w : str) (l : leaf) : option unit :=
   if leaf_is_pipe x w l then Some tt else None.
 
-Lemma agrees_lit : forall x w l, leaf_wf (LPipe x w) = true -> leaf_wf l = true ->
+Lemma agrees_lit : forall x w l, leaf_sc (LPipe x w) = true -> leaf_sc l = true ->
   agrees _ (m_lit idz (print_leaf (LPipe x w))) (act_lit x w) l.
 Proof.
   intros x w l Hp Hl s. destruct (pipe_wf x w Hp) as (Hx & Hne & Hnb & _).
@@ -763,7 +800,7 @@ Proof.
 Qed.
 
 Lemma replace_all_leaves : forall cur x w new,
-  wf_leaves cur -> leaf_wf (LPipe x w) = true ->
+  wf_leaves cur -> leaf_sc (LPipe x w) = true ->
   replace_all idz (print_leaves cur) (print_leaf (LPipe x w)) new =
   print_leaves (map (fun l => if leaf_is_pipe x w l then LText new else l) cur).
 Proof.
@@ -776,7 +813,14 @@ Proof.
 Qed.
 
 Definition repl (c : ctx) (x w : str) : str :=
-  match lookup c x with Some v => str_value v | None => w end.
+  shield (match lookup c x with Some v => str_value v | None => w end).
+
+Lemma shield_nobrace : forall s, nobrace (shield s) = true.
+Proof.
+  intros s. unfold nobrace, shield. apply forallb_forall. intros c Hc.
+  apply in_map_iff in Hc. destruct Hc as (a & <- & _). unfold sh_char, LB, RB, SH_OPEN, SH_CLOSE.
+  destruct (a =? 123) eqn:E1; [lia|]. destruct (a =? 125) eqn:E2; lia.
+Qed.
 
 Definition step1 (c : ctx) (xw : str * str) (l : leaf) : leaf :=
   if is_filter (snd xw) then l
@@ -788,48 +832,26 @@ Definition pipes_of (ls : list leaf) : list (str * str) :=
 Definition default_step (c : ctx) (res : str) (mc : (str * str) * str) : str :=
   let '((x, d), g0) := mc in
   if is_filter d then res
-  else replace_all idz res g0 (match lookup c x with Some v => str_value v | None => d end).
+  else replace_all idz res g0 (sh false (match lookup c x with Some v => str_value v | None => d end)).
 
 Lemma pass_default_unfold : forall c s,
-  pass_default c s = fold_left (default_step c) (matches (scan (m_default idz) O s)) s.
+  pass_default false c s = fold_left (default_step c) (matches (scan (m_default idz) O s)) s.
 Proof. reflexivity. Qed.
 
-Lemma lookup_free : forall c x v, delimiter_free c = true -> lookup c x = Some v ->
-  value_free v = true.
-Proof.
-  induction c as [|[k u] c IH]; cbn; intros x v H L; [discriminate|].
-  apply andb_prop in H. destruct H as [H1 H2].
-  destruct (str_eqb k x); [inversion L; subst; auto|eauto].
-Qed.
-
-Lemma lookup_nobrace : forall c x v, delimiter_free c = true -> lookup c x = Some v ->
-  nobrace (str_value v) = true.
-Proof.
-  intros. apply lookup_free in H0; auto. unfold value_free in H0.
-  apply andb_prop in H0. tauto.
-Qed.
-
-Lemma repl_nobrace : forall c x w, delimiter_free c = true -> nobrace w = true ->
-  nobrace (repl c x w) = true.
-Proof.
-  intros. unfold repl. destruct (lookup c x) eqn:E; auto. eapply lookup_nobrace; eauto.
-Qed.
-
 Lemma fold_default_leaves : forall c ps cur,
-  delimiter_free c = true ->
-  Forall (fun xw => leaf_wf (LPipe (fst xw) (snd xw)) = true) ps -> wf_leaves cur ->
+  Forall (fun xw => leaf_sc (LPipe (fst xw) (snd xw)) = true) ps -> wf_leaves cur ->
   fold_left (default_step c)
             (map (fun xw => (xw, print_leaf (LPipe (fst xw) (snd xw)))) ps) (print_leaves cur) =
   print_leaves (map (fun l => fold_left (fun l' xw => step1 c xw l') ps l) cur).
 Proof.
-  intros c ps. induction ps as [|[x w] ps IH]; intros cur Hc Hps Hcur.
+  intros c ps. induction ps as [|[x w] ps IH]; intros cur Hps Hcur.
   - cbn. rewrite map_id. reflexivity.
   - inversion Hps as [|? ? Hp Hps']; subst. cbn [fst snd] in Hp.
     cbn [map fold_left fst snd]. unfold default_step at 2.
     destruct (pipe_wf x w Hp) as (Hx & Hne & Hnb & _).
     assert (E : (if is_filter w then print_leaves cur
                  else replace_all idz (print_leaves cur) (print_leaf (LPipe x w))
-                        (match lookup c x with Some v => str_value v | None => w end))
+                        (sh false (match lookup c x with Some v => str_value v | None => w end)))
                 = print_leaves (map (step1 c (x, w)) cur)).
     { unfold step1. cbn [fst snd]. destruct (is_filter w).
       - rewrite map_id. reflexivity.
@@ -839,7 +861,7 @@ Proof.
     + unfold wf_leaves in *. rewrite Forall_forall in *. intros l Hl.
       apply in_map_iff in Hl. destruct Hl as (l0 & <- & Hl0).
       unfold step1. cbn [fst snd]. destruct (is_filter w); auto.
-      destruct (leaf_is_pipe x w l0); auto. cbn [leaf_wf]. apply repl_nobrace; auto.
+      destruct (leaf_is_pipe x w l0); auto. cbn [leaf_sc]. apply shield_nobrace.
 Qed.
 
 Lemma fold_step1_nonpipe : forall c ps l,
@@ -886,7 +908,7 @@ Proof.
 Qed.
 
 Lemma pipes_of_wf : forall ls, wf_leaves ls ->
-  Forall (fun xw => leaf_wf (LPipe (fst xw) (snd xw)) = true) (pipes_of ls).
+  Forall (fun xw => leaf_sc (LPipe (fst xw) (snd xw)) = true) (pipes_of ls).
 Proof.
   intros ls H. apply Forall_forall. intros [x w] Hin. unfold pipes_of in Hin.
   apply in_flat_map in Hin. destruct Hin as (l & Hl & Hin).
@@ -894,15 +916,15 @@ Proof.
   destruct l; try destruct Hin. inversion H0; subst. exact H. destruct H0.
 Qed.
 
-Lemma pass_default_leaves : forall c ls, delimiter_free c = true -> wf_leaves ls ->
-  pass_default c (print_leaves ls) = print_leaves (map (def_leaf c) ls).
+Lemma pass_default_leaves : forall c ls, wf_leaves ls ->
+  pass_default false c (print_leaves ls) = print_leaves (map (def_leaf c) ls).
 Proof.
-  intros c ls Hc Hwf. rewrite pass_default_unfold.
+  intros c ls Hwf. rewrite pass_default_unfold.
   rewrite (scan_leaves_nil (m_default idz) act_def ls no_default Hwf agrees_default).
   rewrite matches_leaf_toks.
   match goal with |- fold_left _ ?L _ = _ =>
     assert (E : L = map (fun xw => (xw, print_leaf (LPipe (fst xw) (snd xw)))) (pipes_of ls)) end.
-  { unfold pipes_of. clear Hc. induction ls as [|l ls IH]; [reflexivity|].
+  { unfold pipes_of. induction ls as [|l ls IH]; [reflexivity|].
     inversion Hwf; subst. cbn [flat_map]. rewrite map_app, IH by auto. f_equal.
     destruct l; reflexivity. }
   rewrite E. rewrite fold_default_leaves; auto using pipes_of_wf.
@@ -996,7 +1018,7 @@ Definition filt_ok (c : ctx) (l : leaf) : Prop :=
   end.
 
 Lemma pass_filtered_leaves : forall c ls, wf_leaves ls -> Forall (filt_ok c) ls ->
-  pass_filtered c (print_leaves ls) = inl (print_leaves (map (filt_leaf c) ls)).
+  pass_filtered false c (print_leaves ls) = inl (print_leaves (map (filt_leaf c) ls)).
 Proof.
   intros c ls Hwf Hok. unfold pass_filtered.
   rewrite (scan_leaves_nil (m_filtered idz) act_filt ls no_filtered Hwf agrees_filtered).
@@ -1009,52 +1031,31 @@ Proof.
   destruct (Hok v eq_refl eq_refl) as (s & ->). reflexivity.
 Qed.
 
-Lemma filt_leaf_wf : forall c l, delimiter_free c = true -> leaf_wf l = true ->
-  leaf_wf (filt_leaf c l) = true.
+Lemma filt_leaf_sc : forall c l, leaf_sc l = true -> leaf_sc (filt_leaf c l) = true.
 Proof.
-  intros c l Hc H. destruct l as [t|x| |x|x w|x]; auto.
+  intros c l H. destruct l as [t|x| |x|x w|x]; auto.
   cbn [filt_leaf]. destruct (forallb is_word w); auto.
   unfold filt_text. destruct (lookup c x) as [v|] eqn:E; auto.
-  pose proof (lookup_nobrace c x v Hc E).
-  destruct (is_filter w); auto.
-  destruct (apply_filter w v) eqn:Ea; auto. cbn [leaf_wf]. eapply apply_filter_nobrace; eauto.
+  destruct (is_filter w); [destruct (apply_filter w v) eqn:Ea|]; auto; apply shield_nobrace.
 Qed.
 
-Lemma def_leaf_wf : forall c l, delimiter_free c = true -> leaf_wf l = true ->
-  leaf_wf (def_leaf c l) = true.
+Lemma def_leaf_sc : forall c l, leaf_sc l = true -> leaf_sc (def_leaf c l) = true.
 Proof.
-  intros c l Hc H. destruct l as [t|x| |x|x w|x]; auto.
-  cbn [def_leaf]. destruct (is_filter w); auto. cbn [leaf_wf].
-  destruct (pipe_wf x w H) as (_ & _ & Hnb & _). apply (repl_nobrace c x w Hc Hnb).
+  intros c l H. destruct l as [t|x| |x|x w|x]; auto.
+  cbn [def_leaf]. destruct (is_filter w); auto. apply shield_nobrace.
 Qed.
 
-Lemma opt_leaf_wf : forall c l, delimiter_free c = true -> leaf_wf l = true ->
-  leaf_wf (opt_leaf c l) = true.
+Lemma opt_leaf_sc : forall c l, leaf_sc l = true -> leaf_sc (opt_leaf c l) = true.
 Proof.
-  intros c l Hc H. destruct l as [t|x| |x|x w|x]; auto.
-  cbn [opt_leaf leaf_wf]. destruct (lookup c x) eqn:E; auto. eapply lookup_nobrace; eauto.
+  intros c l H. destruct l as [t|x| |x|x w|x]; auto. apply shield_nobrace.
 Qed.
 
 Lemma map_wf : forall (g : leaf -> leaf) ls,
-  (forall l, leaf_wf l = true -> leaf_wf (g l) = true) -> wf_leaves ls -> wf_leaves (map g ls).
+  (forall l, leaf_sc l = true -> leaf_sc (g l) = true) -> wf_leaves ls -> wf_leaves (map g ls).
 Proof.
   intros g ls Hg H. unfold wf_leaves in *. rewrite Forall_forall in *. intros l Hl.
   apply in_map_iff in Hl. destruct Hl as (l0 & <- & Hl0). auto.
 Qed.
-
-Definition no_inc (ls : list leaf) : Prop := Forall (fun l => act_inc l = None) ls.
-
-Lemma pass_include_leaves_noinc : forall render ls, wf_leaves ls -> no_inc ls ->
-  pass_include render (print_leaves ls) = inl (print_leaves ls).
-Proof.
-  intros render ls Hwf Hno. unfold pass_include.
-  rewrite (scan_leaves_nil (m_include idz) act_inc ls no_include Hwf agrees_include).
-  apply subst_err_leaf_toks. intros l Hl. unfold no_inc in Hno. rewrite Forall_forall in Hno.
-  rewrite (Hno l Hl). reflexivity.
-Qed.
-
-(* ------------------------------------------------------------------ *)
-(* I. stage 1: the variables-and-text fragment                           *)
 
 Definition final_leaf (c : ctx) (l : leaf) : leaf :=
   simple_leaf c (opt_leaf c (def_leaf c (filt_leaf c l))).
@@ -1066,112 +1067,8 @@ Proof.
   inversion H; subst. repeat eexists.
 Qed.
 
-Lemma leaf_final : forall c inc l t m,
-  leaf_wf l = true -> act_inc l = None ->
-  render_leaf false c inc None l = SOk t m ->
-  filt_ok c l /\ print_leaf (final_leaf c l) = t.
-Proof.
-  intros c inc l t m Hwf Hni H. unfold final_leaf.
-  destruct l as [s|x| |x|x w|x]; cbn [render_leaf] in H; try discriminate.
-  - inversion H; subst. split; [exact I|reflexivity].
-  - split; [exact I|]. cbn. destruct (lookup c x); inversion H; subst; reflexivity.
-  - inversion H; subst. split; [exact I|reflexivity].
-  - split; [exact I|]. cbn. destruct (lookup c x); inversion H; subst; reflexivity.
-  - cbn [filt_ok filt_leaf]. unfold filt_text.
-    destruct (is_filter w) eqn:F.
-    + rewrite (is_filter_word w F).
-      destruct (lookup c x) as [v|] eqn:L.
-      * destruct (apply_filter w v) as [s|e] eqn:A; inversion H; subst.
-        split. { intros v' Hv' _. inversion Hv'; subst. eauto. }
-        reflexivity.
-      * inversion H; subst. split. { intros v' Hv'. discriminate. }
-        cbn [def_leaf]. rewrite F. reflexivity.
-    + split. { intros v' _ Hf. discriminate. }
-      destruct (forallb is_word w).
-      * destruct (lookup c x) as [v|] eqn:L; inversion H; subst.
-        -- reflexivity.
-        -- cbn [def_leaf]. rewrite F. unfold repl. rewrite L. reflexivity.
-      * cbn [def_leaf]. rewrite F. destruct (lookup c x) as [v|] eqn:L; inversion H; subst; reflexivity.
-Qed.
-
-Lemma leaves_final : forall c inc ls t m,
-  wf_leaves ls -> no_inc ls ->
-  render_leaves false c inc None ls = SOk t m ->
-  Forall (filt_ok c) ls /\ print_leaves (map (final_leaf c) ls) = t.
-Proof.
-  intros c inc ls. induction ls as [|l ls IH]; intros t m Hwf Hni H.
-  - cbn in H. inversion H; subst. split; [constructor|reflexivity].
-  - inversion Hwf; subst. inversion Hni; subst.
-    unfold render_leaves in H. cbn [map sconcat fold_right] in H.
-    apply sapp_ok in H. destruct H as (t1 & m1 & t2 & m2 & R1 & R2 & -> & ->).
-    destruct (leaf_final c inc l t1 m1) as [Hok E1]; auto.
-    destruct (IH t2 m2) as [Hoks E2]; auto.
-    split; [constructor; auto|].
-    unfold print_leaves in *. cbn [map flat_map]. rewrite E1, E2. reflexivity.
-Qed.
-
-Lemma translate_vars : forall fuel T c ls,
-  delimiter_free c = true -> wf_leaves ls -> no_inc ls -> Forall (filt_ok c) ls ->
-  exists w, translate (S fuel) false T c (print_leaves ls) =
-            Ok (print_leaves (map (final_leaf c) ls)) w.
-Proof.
-  intros fuel T c ls Hc Hwf Hni Hok. cbn [translate].
-  rewrite pass_if_leaves, pass_each_leaves by auto.
-  rewrite pass_include_leaves_noinc by auto.
-  rewrite pass_filtered_leaves by auto.
-  assert (W1 : wf_leaves (map (filt_leaf c) ls)) by (apply map_wf; auto using filt_leaf_wf).
-  rewrite pass_default_leaves by auto.
-  assert (W2 : wf_leaves (map (def_leaf c) (map (filt_leaf c) ls))) by (apply map_wf; auto using def_leaf_wf).
-  rewrite pass_optional_leaves by auto.
-  assert (W3 : wf_leaves (map (opt_leaf c) (map (def_leaf c) (map (filt_leaf c) ls))))
-    by (apply map_wf; auto using opt_leaf_wf).
-  rewrite pass_simple_leaves by auto.
-  rewrite !map_map. eexists. reflexivity.
-Qed.
-
-Definition leaves_of (t : template) : option (list leaf) :=
-  fold_right (fun n acc => match n, acc with NLeaf l, Some ls => Some (l :: ls) | _, _ => None end)
-             (Some []) t.
-
-(* the variables-and-text fragment: leaves only, no includes *)
-Definition vars_only (t : template) : bool :=
-  forallb (fun n => match n with
-                    | NLeaf (LInc _) => false
-                    | NLeaf _ => true
-                    | _ => false
-                    end) t.
-
-Lemma vars_only_leaves : forall t, vars_only t = true -> well_formed t = true ->
-  exists ls, t = map NLeaf ls /\ wf_leaves ls /\ no_inc ls.
-Proof.
-  induction t as [|n t IH]; intros Hv Hw.
-  - exists []. repeat split; constructor.
-  - cbn in Hv, Hw. apply andb_prop in Hv. destruct Hv as [Hn Hv].
-    apply andb_prop in Hw. destruct Hw as [Hwn Hw].
-    destruct (IH Hv Hw) as (ls & -> & Hwf & Hni).
-    destruct n as [l| |]; try discriminate.
-    exists (l :: ls). split; [reflexivity|]. split; constructor; auto.
-    destruct l; try reflexivity. discriminate.
-Qed.
-
 Lemma print_map_leaf : forall ls, print (map NLeaf ls) = print_leaves ls.
 Proof. intros. unfold print, print_leaves. rewrite flat_map_concat_map, map_map, <- flat_map_concat_map. reflexivity. Qed.
-
-Lemma render_nodes_leaves : forall strict c inc ls,
-  render_nodes strict c inc (map NLeaf ls) = render_leaves strict c inc None ls.
-Proof. intros. unfold render_nodes, render_leaves. rewrite map_map. reflexivity. Qed.
-
-Theorem render_eq_vars_proof : forall T c t txt miss,
-  delimiter_free c = true -> well_formed t = true -> vars_only t = true ->
-  render_spec false T c t = SOk txt miss ->
-  exists w, render_impl false (print_templates T) c (print t) = Ok txt w.
-Proof.
-  intros T c t txt miss Hc Hwf Hv H.
-  destruct (vars_only_leaves t Hv Hwf) as (ls & -> & Hls & Hni).
-  unfold render_spec in H. cbn [render_tpl] in H. rewrite render_nodes_leaves in H.
-  destruct (leaves_final c _ ls txt miss Hls Hni H) as [Hok <-].
-  unfold render_impl. rewrite print_map_leaf. apply translate_vars; auto.
-Qed.
 
 (* ------------------------------------------------------------------ *)
 (* J. blocks.  The block delimiters are read as pseudo-leaves so that the print of a
@@ -1259,7 +1156,7 @@ Proof. apply shaped_var_like; [unfold LB; lia|]. repeat (constructor; [unfold LB
 Lemma agrees_by_kind : forall M (mt : list Z -> option (M * nat)) k0,
   k0 = 35 \/ k0 = 47 ->
   (forall k t, k <> k0 -> mt (123 :: 123 :: k :: t) = None) ->
-  forall l, leaf_wf l = true -> agrees M mt act_none l.
+  forall l, leaf_sc l = true -> agrees M mt act_none l.
 Proof.
   intros M mt k0 Hk Hm l H s. unfold act_none.
   destruct l as [t|x| |x|x w|x]; cbv beta iota; [exact I| | | | | ].
@@ -1354,7 +1251,7 @@ Definition opt_leaves (b : option (list leaf)) : list leaf := match b with Some 
 Definition wf_opt (b : option (list leaf)) : Prop := wf_leaves (opt_leaves b).
 
 Lemma wf_shaped_agrees : forall {M} (mt : list Z -> option (M * nat)) ls,
-  wf_leaves ls -> (forall l, leaf_wf l = true -> agrees M mt act_none l) ->
+  wf_leaves ls -> (forall l, leaf_sc l = true -> agrees M mt act_none l) ->
   Forall (fun l => shaped l /\ agrees M mt act_none l) ls.
 Proof.
   intros M mt ls H Hag. eapply Forall_impl; [|exact H]. cbn. intros l Hl. split; auto using leaf_shape.
@@ -1425,7 +1322,7 @@ Proof.
 Qed.
 
 Lemma forallb_wf : forall ls, forallb leaf_wf ls = true -> wf_leaves ls.
-Proof. intros ls H. apply Forall_forall. rewrite forallb_forall in H. exact H. Qed.
+Proof. intros ls H. apply Forall_forall. rewrite forallb_forall in H. intros l Hl. apply wf_sc. auto. Qed.
 
 Lemma node_wf_if : forall ws c a b, node_wf (NIf ws c a b) = true ->
   spaces ws = true /\ word c = true /\ wf_leaves a /\ wf_opt b.
@@ -1483,7 +1380,7 @@ Proof.
   unfold print. cbn [flat_map]. fold (print t). rewrite <- !app_assoc. rewrite <- (IH s Ht).
   set (rest := print t ++ s).
   destruct n as [l|ws c a b|ws x body]; cbn [if_toks].
-  - cbn [node_wf] in Hn.
+  - cbn [node_wf] in Hn. apply wf_sc in Hn.
     pose proof (scan_leaves _ (m_if idz) act_none no_if [l] rest) as E.
     rewrite print_leaves_cons1, print_leaves_nil, app_nil_r in E. cbn [print_node].
     rewrite E.
@@ -1567,7 +1464,7 @@ Proof.
 Qed.
 
 Lemma prefix_key : forall l k s r,
-  leaf_wf l = true -> key_ok k = true -> is_text l = false ->
+  leaf_sc l = true -> key_ok k = true -> is_text l = false ->
   print_leaf l ++ s = key_pattern k ++ r -> inner l = k.
 Proof.
   intros l k s r Hl Hk Ht E.
@@ -1577,7 +1474,7 @@ Proof.
   destruct (split_at 125 (inner l) k _ _ E') as [E1 _]; auto using inner_norb, key_no125.
 Qed.
 
-Lemma agrees_key : forall k l, key_ok k = true -> leaf_wf l = true ->
+Lemma agrees_key : forall k l, key_ok k = true -> leaf_sc l = true ->
   agrees _ (m_lit idz (key_pattern k)) (act_key k) l.
 Proof.
   intros k l Hk Hl s.
@@ -1611,21 +1508,21 @@ Proof.
 Qed.
 
 Definition loop_step (kv : str * str) (l : leaf) : leaf :=
-  match act_key (fst kv) l with Some _ => LText (snd kv) | None => l end.
+  match act_key (fst kv) l with Some _ => LText (shield (snd kv)) | None => l end.
 
 Definition loop_leaf (lc : list (str * str)) (l : leaf) : leaf :=
   match l with
-  | LVar x => match lookup lc x with Some v => LText v | None => l end
-  | LDot => match lookup lc K_DOT with Some v => LText v | None => l end
+  | LVar x => match lookup lc x with Some v => LText (shield v) | None => l end
+  | LDot => match lookup lc K_DOT with Some v => LText (shield v) | None => l end
   | _ => l
   end.
 
 Definition lc_ok (lc : list (str * str)) : Prop :=
-  Forall (fun kv => nobrace (snd kv) = true /\ key_ok (fst kv) = true) lc.
+  Forall (fun kv => key_ok (fst kv) = true) lc.
 
 Lemma replace_key_leaves : forall cur k v,
   wf_leaves cur -> key_ok k = true ->
-  replace_all idz (print_leaves cur) (key_pattern k) v =
+  replace_all idz (print_leaves cur) (key_pattern k) (sh false v) =
   print_leaves (map (loop_step (k, v)) cur).
 Proof.
   intros cur k v Hcur Hk. unfold replace_all.
@@ -1635,17 +1532,18 @@ Proof.
   intros l. unfold loop_step. cbn [fst snd]. destruct (act_key k l); reflexivity.
 Qed.
 
-Lemma loop_step_wf : forall kv l, nobrace (snd kv) = true -> leaf_wf l = true ->
-  leaf_wf (loop_step kv l) = true.
-Proof. intros kv l Hv Hl. unfold loop_step. destruct (act_key (fst kv) l); auto. Qed.
+Lemma loop_step_wf : forall kv l, leaf_sc l = true -> leaf_sc (loop_step kv l) = true.
+Proof.
+  intros kv l Hl. unfold loop_step. destruct (act_key (fst kv) l); auto. apply shield_nobrace.
+Qed.
 
 Lemma loop_part_leaves : forall lc body, lc_ok lc -> wf_leaves body ->
-  loop_part (print_leaves body) lc =
+  loop_part false (print_leaves body) lc =
   print_leaves (map (fun l => fold_left (fun l' kv => loop_step kv l') lc l) body).
 Proof.
   unfold loop_part. induction lc as [|[k v] lc IH]; intros body Hlc Hb.
   - cbn. rewrite map_id. reflexivity.
-  - inversion Hlc as [|? ? [Hv Hk] Hlc']; subst. cbn [fst snd] in *.
+  - inversion Hlc as [|? ? Hk Hlc']; subst. cbn [fst snd] in *.
     cbn [fold_left fst snd]. rewrite replace_key_leaves by auto.
     rewrite IH; auto.
     + rewrite map_map. reflexivity.
@@ -1668,7 +1566,7 @@ Proof.
 Qed.
 
 Lemma loop_part_eq : forall lc body, lc_ok lc -> wf_leaves body ->
-  loop_part (print_leaves body) lc = print_leaves (map (loop_leaf lc) body).
+  loop_part false (print_leaves body) lc = print_leaves (map (loop_leaf lc) body).
 Proof.
   intros. rewrite loop_part_leaves by auto. f_equal. apply map_ext. apply fold_loop_step.
 Qed.
@@ -1679,40 +1577,36 @@ Fixpoint loop_leaves (body : list leaf) (n i : nat) (items : list item) : list l
   | it :: rest => map (loop_leaf (loop_context i n it)) body ++ loop_leaves body n (S i) rest
   end.
 
-Lemma item_free_ok : forall i n it, item_free i n it = true -> lc_ok (loop_context i n it).
+Lemma item_free_ok : forall i n it, item_ok i n it = true -> lc_ok (loop_context i n it).
 Proof.
-  unfold item_free, lc_ok. intros i n it H. apply Forall_forall. intros kv Hkv.
-  rewrite forallb_forall in H. specialize (H kv Hkv). apply andb_prop in H. exact H.
+  unfold item_ok, lc_ok. intros i n it H. apply Forall_forall. intros kv Hkv.
+  rewrite forallb_forall in H. specialize (H kv Hkv). apply andb_prop in H. tauto.
 Qed.
 
 Lemma loop_items_leaves : forall body n items i,
-  wf_leaves body -> items_free n i items = true ->
-  loop_items (print_leaves body) n i items = print_leaves (loop_leaves body n i items).
+  wf_leaves body -> items_ok n i items = true ->
+  loop_items false (print_leaves body) n i items = print_leaves (loop_leaves body n i items).
 Proof.
   intros body n items. induction items as [|it rest IH]; intros i Hb Hf; [reflexivity|].
-  cbn [items_free] in Hf. apply andb_prop in Hf. destruct Hf as [H1 H2].
+  cbn [items_ok] in Hf. apply andb_prop in Hf. destruct Hf as [H1 H2].
   cbn [loop_items loop_leaves]. rewrite print_leaves_app.
   rewrite loop_part_eq by auto using item_free_ok. rewrite IH by auto. reflexivity.
 Qed.
 
-Lemma loop_leaf_wf : forall lc l, lc_ok lc -> leaf_wf l = true -> leaf_wf (loop_leaf lc l) = true.
+Lemma loop_leaf_sc : forall lc l, leaf_sc l = true -> leaf_sc (loop_leaf lc l) = true.
 Proof.
-  intros lc l Hlc Hl.
-  assert (Hv : forall x v, lookup lc x = Some v -> nobrace v = true).
-  { clear l Hl. induction Hlc as [|[k u] lc [Hu _] Hlc IH]; cbn; intros x v H; [discriminate|].
-    destruct (str_eqb k x); [inversion H; subst; auto|eauto]. }
-  destruct l as [t|x| |x|x w|x]; auto; cbn [loop_leaf].
-  - destruct (lookup lc x) eqn:E; auto. cbn. eauto.
-  - destruct (lookup lc K_DOT) eqn:E; auto. cbn. eauto.
+  intros lc l Hl. destruct l as [t|x| |x|x w|x]; auto; cbn [loop_leaf].
+  - destruct (lookup lc x) eqn:E; auto. apply shield_nobrace.
+  - destruct (lookup lc K_DOT) eqn:E; auto. apply shield_nobrace.
 Qed.
 
 Lemma loop_leaves_wf : forall body n items i,
-  wf_leaves body -> items_free n i items = true -> wf_leaves (loop_leaves body n i items).
+  wf_leaves body -> items_ok n i items = true -> wf_leaves (loop_leaves body n i items).
 Proof.
   intros body n items. induction items as [|it rest IH]; intros i Hb Hf; [constructor|].
-  cbn [items_free] in Hf. apply andb_prop in Hf. destruct Hf as [H1 H2].
+  cbn [items_ok] in Hf. apply andb_prop in Hf. destruct Hf as [H1 H2].
   cbn [loop_leaves]. apply Forall_app. split.
-  - apply map_wf; auto. intros l Hl. apply loop_leaf_wf; auto using item_free_ok.
+  - apply map_wf; auto. intros l Hl. apply loop_leaf_sc; auto.
   - apply IH; auto.
 Qed.
 
@@ -1778,7 +1672,7 @@ Proof.
   unfold print. cbn [flat_map]. fold (print t). rewrite <- !app_assoc. rewrite <- (IH s Ht Hni').
   set (rest := print t ++ s).
   destruct n as [l|ws c a b|ws x body]; cbn [each_toks]; [|destruct Hn'|].
-  - cbn [node_wf] in Hn.
+  - cbn [node_wf] in Hn. apply wf_sc in Hn.
     pose proof (scan_leaves _ (m_each idz) act_none no_each [l] rest) as E.
     rewrite print_leaves_cons1, print_leaves_nil, app_nil_r in E. cbn [print_node].
     rewrite E.
@@ -1801,15 +1695,28 @@ Definition each_node (c : ctx) (n : node) : list node :=
   end.
 Definition each_nodes (c : ctx) (t : template) : template := flat_map (each_node c) t.
 
-Lemma lookup_items_free : forall c x items, delimiter_free c = true ->
-  lookup c x = Some (VList items) -> items_free (length items) O items = true.
+Lemma lookup_ok : forall c x v, ctx_ok c = true -> lookup c x = Some v -> value_ok v = true.
 Proof.
-  intros c x items Hc L. apply lookup_free in L; auto. unfold value_free in L.
+  induction c as [|[k u] c IH]; cbn; intros x v H L; [discriminate|].
+  apply andb_prop in H. destruct H as [H1 H2].
+  destruct (str_eqb k x); [inversion L; subst; auto|eauto].
+Qed.
+
+Lemma lookup_nosent : forall c x v, ctx_ok c = true -> lookup c x = Some v ->
+  nosent (str_value v) = true.
+Proof.
+  intros. apply lookup_ok in H0; auto. unfold value_ok in H0. apply andb_prop in H0. tauto.
+Qed.
+
+Lemma lookup_items_ok : forall c x items, ctx_ok c = true ->
+  lookup c x = Some (VList items) -> items_ok (length items) O items = true.
+Proof.
+  intros c x items Hc L. apply lookup_ok in L; auto. unfold value_ok in L.
   apply andb_prop in L. tauto.
 Qed.
 
-Lemma pass_each_nodes : forall c t, delimiter_free c = true -> well_formed t = true -> if_free t ->
-  pass_each c (print t) = print (each_nodes c t).
+Lemma pass_each_nodes : forall c t, ctx_ok c = true -> well_formed t = true -> if_free t ->
+  pass_each false c (print t) = print (each_nodes c t).
 Proof.
   intros c t Hc Hwf Hni. unfold pass_each.
   pose proof (scan_each_nodes t [] Hwf Hni) as E. rewrite app_nil_r in E. cbn [scan] in E.
@@ -1826,11 +1733,126 @@ Proof.
     unfold subst. cbn [flat_map]. rewrite app_nil_r.
     destruct (lookup c x) as [[s0|z|b0|items]|] eqn:L; try reflexivity.
     rewrite print_map_leaf. apply loop_items_leaves; auto.
-    eapply lookup_items_free; eauto.
+    eapply lookup_items_ok; eauto.
+Qed.
+
+
+(* ------------------------------------------------------------------ *)
+(* M. shielding: round trips, and what stays sentinel-free                *)
+
+Lemma ush_sh : forall c, c <> SH_OPEN -> c <> SH_CLOSE -> ush_char (sh_char c) = c.
+Proof.
+  intros c H1 H2. unfold ush_char, sh_char, LB, RB, SH_OPEN, SH_CLOSE in *.
+  destruct (c =? 123) eqn:E1; [cbn; lia|]. destruct (c =? 125) eqn:E2; [cbn; lia|].
+  destruct (c =? 57344) eqn:E3; [lia|]. destruct (c =? 57345) eqn:E4; lia.
+Qed.
+
+Lemma nosent_in : forall s c, nosent s = true -> In c s -> c <> SH_OPEN /\ c <> SH_CLOSE.
+Proof.
+  unfold nosent. intros s c H Hc. rewrite forallb_forall in H. specialize (H c Hc).
+  unfold SH_OPEN, SH_CLOSE in *. lia.
+Qed.
+Lemma in_nosent : forall s, (forall c, In c s -> c <> SH_OPEN /\ c <> SH_CLOSE) -> nosent s = true.
+Proof.
+  intros s H. unfold nosent. apply forallb_forall. intros c Hc. destruct (H c Hc).
+  unfold SH_OPEN, SH_CLOSE in *. lia.
+Qed.
+
+Lemma unshield_shield : forall s, nosent s = true -> unshield (shield s) = s.
+Proof.
+  intros s H. unfold unshield, shield. rewrite map_map. rewrite <- (map_id s) at 2.
+  apply map_ext_in. intros c Hc. destruct (nosent_in s c H Hc). apply ush_sh; auto.
+Qed.
+
+Lemma unshield_id : forall s, nosent s = true -> unshield s = s.
+Proof.
+  intros s H. unfold unshield. rewrite <- (map_id s) at 2. apply map_ext_in.
+  intros c Hc. destruct (nosent_in s c H Hc) as [H1 H2]. unfold ush_char, SH_OPEN, SH_CLOSE in *.
+  destruct (c =? 57344) eqn:E1; [lia|]. destruct (c =? 57345) eqn:E2; [lia|]. reflexivity.
+Qed.
+
+Lemma unshield_app : forall a b, unshield (a ++ b) = unshield a ++ unshield b.
+Proof. intros. unfold unshield. apply map_app. Qed.
+
+Lemma unshield_nosent : forall s, nosent (unshield s) = true.
+Proof.
+  intros s. apply in_nosent. intros c Hc. unfold unshield in Hc. apply in_map_iff in Hc.
+  destruct Hc as (a & <- & _). unfold ush_char, LB, RB, SH_OPEN, SH_CLOSE.
+  destruct (a =? 57344) eqn:E1; [lia|]. destruct (a =? 57345) eqn:E2; lia.
+Qed.
+
+Lemma nosent_app : forall a b, nosent a = true -> nosent b = true -> nosent (a ++ b) = true.
+Proof. intros. unfold nosent in *. rewrite forallb_app, H, H0. reflexivity. Qed.
+
+Lemma small_nosent : forall s, (forall c, In c s -> c < 57344) -> nosent s = true.
+Proof. intros s H. apply in_nosent. intros c Hc. specialize (H c Hc). unfold SH_OPEN, SH_CLOSE. lia. Qed.
+
+Lemma word_nosent : forall x, forallb is_word x = true -> nosent x = true.
+Proof.
+  intros x H. apply small_nosent. intros c Hc. rewrite forallb_forall in H. apply H in Hc.
+  unfold is_word in Hc. lia.
+Qed.
+
+Lemma dec_nosent : forall z, nosent (dec z) = true.
+Proof.
+  intros z. apply small_nosent. intros c Hc.
+  pose proof (in_nobrace (dec z) c (dec_nobrace z) Hc) as _.
+  unfold dec in Hc. destruct (z =? 0).
+  - destruct Hc as [<-|[]]. lia.
+  - destruct (z <? 0).
+    + destruct Hc as [<-|Hc]; [lia|]. apply dec_pos_chars in Hc; [lia|]. intros d [].
+    + apply dec_pos_chars in Hc; [lia|]. intros d [].
+Qed.
+
+Lemma strip_nosent : forall s, nosent s = true -> nosent (strip s) = true.
+Proof.
+  intros s H. apply in_nosent. intros c Hc. apply (nosent_in s c H).
+  unfold strip in Hc. apply in_rev in Hc. apply lstrip_in in Hc. apply in_rev in Hc.
+  apply lstrip_in in Hc. exact Hc.
+Qed.
+
+Lemma map_nosent : forall (f : Z -> Z) s,
+  (forall c, c <> SH_OPEN /\ c <> SH_CLOSE -> f c <> SH_OPEN /\ f c <> SH_CLOSE) ->
+  nosent s = true -> nosent (map f s) = true.
+Proof.
+  intros f s Hf H. apply in_nosent. intros c Hc. apply in_map_iff in Hc.
+  destruct Hc as (a & <- & Ha). apply Hf. apply (nosent_in s a H Ha).
+Qed.
+
+Lemma apply_filter_nosent : forall w v s,
+  nosent (str_value v) = true -> apply_filter w v = inl s -> nosent s = true.
+Proof.
+  intros w v s Hv H. unfold apply_filter in H.
+  destruct (str_eqb w F_UPPER).
+  { inversion H; subst. apply map_nosent; auto. intros c Hc. unfold up_char, SH_OPEN, SH_CLOSE in *.
+    destruct ((97 <=? c) && (c <=? 122)) eqn:E; lia. }
+  destruct (str_eqb w F_LOWER).
+  { inversion H; subst. apply map_nosent; auto. intros c Hc. unfold low_char, SH_OPEN, SH_CLOSE in *.
+    destruct ((65 <=? c) && (c <=? 90)) eqn:E; lia. }
+  destruct (str_eqb w F_TRIM).
+  { inversion H; subst. apply strip_nosent; auto. }
+  destruct (str_eqb w F_LENGTH); [|discriminate].
+  destruct v; inversion H; subst; apply dec_nosent.
+Qed.
+
+(* the reference-side reading of a leaf of the partially rendered text *)
+Definition unsh_leaf (l : leaf) : leaf :=
+  match l with LText s => LText (unshield s) | _ => l end.
+
+(* leaves of the partially rendered text: template leaves, or shielded substituted text *)
+Definition good (l : leaf) : Prop :=
+  leaf_wf l = true \/ exists v, l = LText (shield v) /\ nosent v = true.
+
+Lemma good_sc : forall l, good l -> leaf_sc l = true.
+Proof. intros l [H|(v & -> & _)]; auto using wf_sc. apply shield_nobrace. Qed.
+
+Lemma unsh_leaf_wf : forall l, leaf_wf l = true -> unsh_leaf l = l.
+Proof.
+  intros [s| | | | | ] H; try reflexivity. cbn in *. rewrite unshield_id; auto using clean_nosent.
 Qed.
 
 (* ------------------------------------------------------------------ *)
-(* M. blocks on both sides: after the if and each passes the text is the print of the
+(* N. blocks on both sides: after the if and each passes the text is the print of the
       leaves [blocks c t], and the reference renders exactly those leaves            *)
 
 Definition block_leaves (c : ctx) (n : node) : list leaf :=
@@ -1845,17 +1867,39 @@ Definition block_leaves (c : ctx) (n : node) : list leaf :=
   end.
 Definition blocks (c : ctx) (t : template) : list leaf := flat_map (block_leaves c) t.
 
-Lemma well_formed_leaves : forall ls, wf_leaves ls -> well_formed (map NLeaf ls) = true.
+Definition twf (ls : list leaf) : Prop := Forall (fun l => leaf_wf l = true) ls.
+
+Lemma forallb_twf : forall ls, forallb leaf_wf ls = true -> twf ls.
+Proof. intros ls H. apply Forall_forall. rewrite forallb_forall in H. exact H. Qed.
+
+Lemma node_twf_if : forall ws c a b, node_wf (NIf ws c a b) = true -> twf a /\ twf (opt_leaves b).
+Proof.
+  intros ws c a b H. cbn [node_wf] in H.
+  apply andb_prop in H. destruct H as [H Hb]. apply andb_prop in H. destruct H as [H Ha].
+  split; auto using forallb_twf. destruct b; cbn [opt_leaves]; auto using forallb_twf; constructor.
+Qed.
+
+Lemma node_twf_each : forall ws x body, node_wf (NEach ws x body) = true -> twf body.
+Proof.
+  intros ws x body H. cbn [node_wf] in H. apply andb_prop in H. destruct H as [_ Hb].
+  auto using forallb_twf.
+Qed.
+
+Lemma well_formed_leaves : forall ls, twf ls -> well_formed (map NLeaf ls) = true.
 Proof.
   intros ls H. unfold well_formed. apply forallb_forall. intros n Hn.
   apply in_map_iff in Hn. destruct Hn as (l & <- & Hl).
-  unfold wf_leaves in H. rewrite Forall_forall in H. cbn. auto.
+  unfold twf in H. rewrite Forall_forall in H. cbn. auto.
 Qed.
 
 Lemma well_formed_app : forall a b, well_formed (a ++ b) = well_formed a && well_formed b.
 Proof. intros. unfold well_formed. apply forallb_app. Qed.
 
 Lemma if_branch_wf : forall c x a b, wf_leaves a -> wf_opt b -> wf_leaves (if_branch c x a b).
+Proof.
+  intros. unfold if_branch. destruct (lookup c x) as [v|]; [destruct (truthy v)|]; auto.
+Qed.
+Lemma if_branch_twf : forall c x a b, twf a -> twf (opt_leaves b) -> twf (if_branch c x a b).
 Proof.
   intros. unfold if_branch. destruct (lookup c x) as [v|]; [destruct (truthy v)|]; auto.
 Qed.
@@ -1871,8 +1915,8 @@ Proof.
     destruct n as [l|ws x a b|ws x body]; cbn [if_node].
     + split. { cbn. rewrite IH1. cbn in Hn. rewrite Hn. reflexivity. }
       split; auto; repeat constructor.
-    + destruct (node_wf_if ws x a b Hn) as (_ & _ & Ha & Hb).
-      split. { rewrite well_formed_leaves by (apply if_branch_wf; auto). auto. }
+    + destruct (node_twf_if ws x a b Hn) as (Ha & Hb).
+      split. { rewrite well_formed_leaves by (apply if_branch_twf; auto). auto. }
       split; auto. apply Forall_forall. intros n Hn'. apply in_map_iff in Hn'.
       destruct Hn' as (l & <- & _). exact I.
     + split. { cbn [well_formed forallb]. rewrite Hn. cbn. exact IH1. }
@@ -1889,32 +1933,55 @@ Proof.
   - cbn. rewrite app_nil_r. destruct (lookup c x) as [[s0|z|b0|items]|]; reflexivity.
 Qed.
 
-Lemma blocks_wf : forall c t, delimiter_free c = true -> well_formed t = true -> wf_leaves (blocks c t).
+Lemma blocks_wf : forall c t, ctx_ok c = true -> well_formed t = true -> wf_leaves (blocks c t).
 Proof.
   intros c t Hc. induction t as [|n t IH]; intros H; [constructor|].
   cbn [well_formed forallb] in H. apply andb_prop in H. destruct H as [Hn Ht].
   unfold blocks. cbn [flat_map]. apply Forall_app. split; [|apply IH; auto].
   destruct n as [l|ws x a b|ws x body]; cbn [block_leaves].
-  - repeat constructor; auto.
+  - cbn in Hn. apply wf_sc in Hn. repeat constructor; auto.
   - destruct (node_wf_if ws x a b Hn) as (_ & _ & Ha & Hb). apply if_branch_wf; auto.
   - destruct (node_wf_each ws x body Hn) as (_ & _ & Hbody).
     destruct (lookup c x) as [[s0|z|b0|items]|] eqn:L; try constructor.
-    apply loop_leaves_wf; auto. eapply lookup_items_free; eauto.
+    apply loop_leaves_wf; auto. eapply lookup_items_ok; eauto.
 Qed.
 
-Lemma passes_blocks : forall c t, delimiter_free c = true -> well_formed t = true ->
-  pass_each c (pass_if c (print t)) = print_leaves (blocks c t).
+Lemma passes_blocks : forall c t, ctx_ok c = true -> well_formed t = true ->
+  pass_each false c (pass_if c (print t)) = print_leaves (blocks c t).
 Proof.
   intros c t Hc Hwf. rewrite pass_if_nodes by auto.
   destruct (if_nodes_wf c t Hwf) as [H1 H2].
   rewrite pass_each_nodes by auto. rewrite each_if_nodes. apply print_map_leaf.
 Qed.
 
-(* the reference side *)
+(* the reference side: the same leaves with the loop values inserted verbatim *)
+Definition loop_leaf_s (lc : list (str * str)) (l : leaf) : leaf :=
+  match l with
+  | LVar x => match lookup lc x with Some v => LText v | None => l end
+  | LDot => match lookup lc K_DOT with Some v => LText v | None => l end
+  | _ => l
+  end.
+Fixpoint loop_leaves_s (body : list leaf) (n i : nat) (items : list item) : list leaf :=
+  match items with
+  | [] => []
+  | it :: rest => map (loop_leaf_s (loop_context i n it)) body ++ loop_leaves_s body n (S i) rest
+  end.
+Definition block_leaves_s (c : ctx) (n : node) : list leaf :=
+  match n with
+  | NLeaf l => [l]
+  | NIf _ x a b => if_branch c x a b
+  | NEach _ x body =>
+      match lookup c x with
+      | Some (VList items) => loop_leaves_s body (length items) O items
+      | _ => []
+      end
+  end.
+Definition blocks_s (c : ctx) (t : template) : list leaf := flat_map (block_leaves_s c) t.
+
 Lemma render_loop_leaf : forall strict c inc lc l,
-  render_leaf strict c inc (Some lc) l = render_leaf strict c inc None (loop_leaf lc l).
+  render_leaf strict c inc (Some lc) l = render_leaf strict c inc None (loop_leaf_s lc l).
 Proof.
-  intros. destruct l as [t|x| |x|x w|x]; try reflexivity; cbn [loop_leaf render_leaf].
+  intros. destruct l as [t|x| |x|x w|x]; try reflexivity; cbn [loop_leaf_s render_leaf].
   - destruct (lookup lc x); reflexivity.
   - destruct (lookup lc K_DOT); reflexivity.
 Qed.
@@ -1940,282 +2007,111 @@ Proof. intros. unfold render_leaves. rewrite map_app. apply sconcat_app. Qed.
 
 Lemma render_items_leaves : forall strict c inc body n items i,
   render_items strict c inc body n i items =
-  render_leaves strict c inc None (loop_leaves body n i items).
+  render_leaves strict c inc None (loop_leaves_s body n i items).
 Proof.
   intros strict c inc body n items. induction items as [|it rest IH]; intros i; [reflexivity|].
-  cbn [render_items loop_leaves]. rewrite render_leaves_app, IH. f_equal.
+  cbn [render_items loop_leaves_s]. rewrite render_leaves_app, IH. f_equal.
   unfold render_leaves. rewrite map_map. f_equal. apply map_ext. intros l. apply render_loop_leaf.
 Qed.
 
 Lemma render_nodes_blocks : forall strict c inc t,
-  render_nodes strict c inc t = render_leaves strict c inc None (blocks c t).
+  render_nodes strict c inc t = render_leaves strict c inc None (blocks_s c t).
 Proof.
-  intros strict c inc t. unfold render_nodes, blocks. induction t as [|n t IH]; [reflexivity|].
+  intros strict c inc t. unfold render_nodes, blocks_s. induction t as [|n t IH]; [reflexivity|].
   cbn [map flat_map]. rewrite render_leaves_app, sconcat_cons.
   rewrite IH. f_equal.
-  destruct n as [l|ws x a b|ws x body]; cbn [render_node block_leaves].
+  destruct n as [l|ws x a b|ws x body]; cbn [render_node block_leaves_s].
   - unfold render_leaves. cbn. destruct (render_leaf strict c inc None l); cbn; rewrite ?app_nil_r; reflexivity.
   - unfold if_branch. destruct (lookup c x) as [v|]; [destruct (truthy v)|]; try reflexivity;
       destruct b; reflexivity.
   - destruct (lookup c x) as [[s0|z|b0|items]|]; try reflexivity. apply render_items_leaves.
 Qed.
 
-(* ------------------------------------------------------------------ *)
-(* N. includes; the full rendering theorem by induction on the include depth *)
 
-(* the leaves a finished rendering consists of: the four variable passes leave them alone *)
-Definition stable (c : ctx) (l : leaf) : Prop :=
-  leaf_wf l = true /\ act_inc l = None /\ filt_ok c l /\ final_leaf c l = l.
-
-Lemma final_leaf_stable : forall c l, delimiter_free c = true ->
-  leaf_wf l = true -> act_inc l = None -> filt_ok c l -> stable c (final_leaf c l).
+(* the two readings of the expanded blocks agree, and every leaf is a template leaf or
+   shielded sentinel-free text *)
+Lemma lc_nosent : forall lc x v,
+  Forall (fun kv => nosent (snd kv) = true) lc -> lookup lc x = Some v -> nosent v = true.
 Proof.
-  intros c l Hc Hwf Hni Hok. unfold stable, final_leaf.
-  destruct l as [t|x| |x|x w|x]; try discriminate.
-  - cbn. auto.
-  - cbn [filt_leaf def_leaf opt_leaf simple_leaf].
-    destruct (lookup c x) as [v|] eqn:L.
-    + cbn. repeat split; auto. eapply lookup_nobrace; eauto.
-    + cbn. rewrite L. auto.
-  - cbn. auto.
-  - cbn [filt_leaf def_leaf opt_leaf simple_leaf].
-    repeat split; auto. cbn. destruct (lookup c x) eqn:L; auto. eapply lookup_nobrace; eauto.
-  - destruct (pipe_wf x w Hwf) as (Hx & Hne & Hnb & Hm).
-    cbn [filt_leaf]. unfold filt_text. cbn [filt_ok] in Hok.
-    destruct (forallb is_word w) eqn:Ww.
-    + destruct (lookup c x) as [v|] eqn:L.
-      * pose proof (lookup_nobrace c x v Hc L) as Hv.
-        destruct (is_filter w) eqn:F.
-        -- destruct (Hok v eq_refl eq_refl) as (s & A). rewrite A.
-           cbn. repeat split; auto. eapply apply_filter_nobrace; eauto.
-        -- cbn. repeat split; auto.
-      * cbn [def_leaf]. destruct (is_filter w) eqn:F.
-        -- cbn [opt_leaf simple_leaf filt_leaf def_leaf]. unfold filt_text. rewrite Ww, L.
-           repeat split; auto. intros v Hv. rewrite L in Hv. discriminate.
-           cbn [def_leaf]. rewrite F. reflexivity.
-        -- cbn. repeat split; auto. rewrite L. exact Hnb.
-    + cbn [def_leaf].
-      assert (F : is_filter w = false).
-      { destruct (is_filter w) eqn:F; auto. apply is_filter_word in F. congruence. }
-      rewrite F. cbn. repeat split; auto. apply repl_nobrace; auto.
+  induction lc as [|[k u] lc IH]; cbn; intros x v H L; [discriminate|].
+  inversion H; subst. destruct (str_eqb k x); [inversion L; subst; auto|eauto].
 Qed.
 
-Lemma subst_err_app : forall {M} (f : M -> str -> str + error) (a b : list (tok Z M)),
-  subst_err f (a ++ b) =
-  match subst_err f a with
-  | inl x => match subst_err f b with inl y => inl (x ++ y) | inr e => inr e end
-  | inr e => inr e
-  end.
+Lemma item_ok_nosent : forall i n it, item_ok i n it = true ->
+  Forall (fun kv => nosent (snd kv) = true) (loop_context i n it).
 Proof.
-  intros M f a b. induction a as [|t a IH]; cbn [app subst_err].
-  - destruct (subst_err f b); reflexivity.
-  - destruct t as [z|m cv].
-    + rewrite IH. destruct (subst_err f a); [destruct (subst_err f b)|]; reflexivity.
-    + destruct (f m cv); [|reflexivity]. rewrite IH.
-      destruct (subst_err f a); [destruct (subst_err f b)|]; try reflexivity.
-      rewrite app_assoc. reflexivity.
+  unfold item_ok. intros i n it H. apply Forall_forall. intros kv Hkv.
+  rewrite forallb_forall in H. specialize (H kv Hkv). apply andb_prop in H. tauto.
 Qed.
 
-Lemma subst_err_lits_nil : forall {M} (f : M -> str -> str + error) p,
-  subst_err f (map TLit p) = inl p.
+Lemma loop_leaf_rel : forall lc l,
+  Forall (fun kv => nosent (snd kv) = true) lc -> leaf_wf l = true ->
+  unsh_leaf (loop_leaf lc l) = loop_leaf_s lc l /\ good (loop_leaf lc l).
 Proof.
-  intros. pose proof (subst_err_lits f p []) as E. rewrite app_nil_r in E. rewrite E.
-  cbn. rewrite app_nil_r. reflexivity.
+  intros lc l Hlc Hl. destruct l as [t|x| |x|x w|x]; cbn [loop_leaf loop_leaf_s];
+    try (split; [apply unsh_leaf_wf; auto|left; auto]).
+  - destruct (lookup lc x) as [v|] eqn:L.
+    + pose proof (lc_nosent lc x v Hlc L). cbn. rewrite unshield_shield by auto.
+      split; auto. right. eauto.
+    + split; [reflexivity|left; auto].
+  - destruct (lookup lc K_DOT) as [v|] eqn:L.
+    + pose proof (lc_nosent lc K_DOT v Hlc L). cbn. rewrite unshield_shield by auto.
+      split; auto. right. eauto.
+    + split; [reflexivity|left; auto].
 Qed.
 
-Definition include_cb (render : str -> option outcome) (n : str) (_ : str) : str + error :=
-  match render n with
-  | Some (Ok t _) => inl t
-  | Some (Err e) => inr e
-  | None => inl (S_UNKNOWN ++ n ++ [93])
-  end.
-
-Lemma pass_include_unfold : forall render s,
-  pass_include render s = subst_err (include_cb render) (scan (m_include idz) O s).
-Proof. reflexivity. Qed.
-
-Section IncludeStep.
-  Variable c : ctx.
-  Variable inc : str -> sres.
-  Variable render : str -> option outcome.
-  Hypothesis Hc : delimiter_free c = true.
-  Hypothesis Hrel : forall n tn mn, word n = true -> inc n = SOk tn mn ->
-    exists Rn, include_cb render n [] = inl (print_leaves Rn) /\
-               print_leaves Rn = tn /\ Forall (stable c) Rn.
-
-  Lemma include_leaves : forall L txt miss,
-    wf_leaves L -> render_leaves false c inc None L = SOk txt miss ->
-    exists L3, subst_err (include_cb render) (flat_map (leaf_toks _ act_inc) L) = inl (print_leaves L3) /\
-               wf_leaves L3 /\ no_inc L3 /\ Forall (filt_ok c) L3 /\
-               print_leaves (map (final_leaf c) L3) = txt.
-  Proof.
-    induction L as [|l L IH]; intros txt miss Hwf H.
-    - cbn in H. inversion H; subst. exists []. repeat split; constructor.
-    - inversion Hwf as [|? ? Hl HL]; subst.
-      change (l :: L) with ([l] ++ L) in H. rewrite render_leaves_app in H.
-      apply sapp_ok in H. destruct H as (t1 & m1 & t2 & m2 & R1 & R2 & -> & ->).
-      destruct (IH t2 m2 HL R2) as (L3 & E3 & W3 & N3 & F3 & P3).
-      unfold render_leaves in R1. cbn [map] in R1. rewrite sconcat_cons in R1.
-      change (sconcat []) with (SOk [] []) in R1.
-      apply sapp_ok in R1. destruct R1 as (t1' & m1' & t0 & m0 & R1 & R0 & -> & ->).
-      inversion R0; subst t0 m0. rewrite app_nil_r.
-      cbn [flat_map]. rewrite subst_err_app, E3.
-      destruct (act_inc l) as [n|] eqn:Ea.
-      + destruct l as [t|x| |x|x w|x]; try discriminate. cbn [act_inc] in Ea. inversion Ea; subst x.
-        cbn [render_leaf] in R1. cbn [leaf_wf] in Hl.
-        destruct (Hrel n t1' m1' Hl R1) as (Rn & Ecb & Pn & Sn).
-        exists (Rn ++ L3). unfold leaf_toks. cbn [act_inc]. cbn [subst_err].
-        unfold include_cb in *. rewrite Ecb. cbn. rewrite app_nil_r.
-        split. { rewrite print_leaves_app. reflexivity. }
-        assert (HS : forall P : leaf -> Prop, (forall l, stable c l -> P l) -> Forall P Rn).
-        { intros P HP. eapply Forall_impl; [|exact Sn]. exact HP. }
-        split. { apply Forall_app. split; auto. apply HS. unfold stable. tauto. }
-        split. { apply Forall_app. split; auto. apply HS. unfold stable. tauto. }
-        split. { apply Forall_app. split; auto. apply HS. unfold stable. tauto. }
-        rewrite map_app, print_leaves_app, P3. f_equal. rewrite <- Pn. f_equal.
-        clear - Sn. induction Sn as [|r Rn Hr Sn IHs]; [reflexivity|].
-        cbn [map]. destruct Hr as (_ & _ & _ & ->). f_equal. exact IHs.
-      + exists (l :: L3). unfold leaf_toks. rewrite Ea.
-        rewrite subst_err_lits_nil.
-        destruct (leaf_final c inc l t1' m1' Hl Ea R1) as [Hok Pl].
-        split. { rewrite print_leaves_cons1. reflexivity. }
-        split. { constructor; auto. }
-        split. { constructor; auto. }
-        split. { constructor; auto. }
-        cbn [map]. rewrite print_leaves_cons1, Pl, P3. reflexivity.
-  Qed.
-End IncludeStep.
-
-Definition templates_wf (T : list (str * template)) : Prop :=
-  Forall (fun nt => well_formed (snd nt) = true) T.
-
-Lemma lookup_print_templates : forall T n,
-  lookup (print_templates T) n = option_map print (lookup T n).
+Lemma loop_leaves_rel : forall body n items i, twf body -> items_ok n i items = true ->
+  map unsh_leaf (loop_leaves body n i items) = loop_leaves_s body n i items /\
+  Forall good (loop_leaves body n i items).
 Proof.
-  induction T as [|[k t] T IH]; intros n; [reflexivity|].
-  cbn. destruct (str_eqb k n); auto.
+  intros body n items. induction items as [|it rest IH]; intros i Hb Hf.
+  - split; [reflexivity|constructor].
+  - cbn [items_ok] in Hf. apply andb_prop in Hf. destruct Hf as [H1 H2].
+    destruct (IH (S i) Hb H2) as [E G]. cbn [loop_leaves loop_leaves_s].
+    rewrite map_app, E. pose proof (item_ok_nosent i n it H1) as Hlc.
+    split.
+    + f_equal. rewrite map_map. apply map_ext_in. intros l Hl.
+      unfold twf in Hb. rewrite Forall_forall in Hb. apply loop_leaf_rel; auto.
+    + apply Forall_app. split; auto. apply Forall_forall. intros l Hl.
+      apply in_map_iff in Hl. destruct Hl as (l0 & <- & Hl0).
+      unfold twf in Hb. rewrite Forall_forall in Hb. apply loop_leaf_rel; auto.
 Qed.
 
-Lemma lookup_wf : forall T n t, templates_wf T -> lookup T n = Some t -> well_formed t = true.
+Lemma twf_rel : forall ls, twf ls -> map unsh_leaf ls = ls /\ Forall good ls.
 Proof.
-  induction T as [|[k u] T IH]; cbn; intros n t H L; [discriminate|].
-  inversion H; subst. destruct (str_eqb k n); [inversion L; subst; auto|eauto].
+  intros ls H. induction H as [|l ls Hl H IH]; [split; [reflexivity|constructor]|].
+  destruct IH as [E G]. cbn [map]. rewrite E, unsh_leaf_wf by auto. split; auto.
+  constructor; auto. left. auto.
 Qed.
 
-Lemma word_nobrace : forall n, word n = true -> nobrace n = true.
+Lemma blocks_rel : forall c t, ctx_ok c = true -> well_formed t = true ->
+  map unsh_leaf (blocks c t) = blocks_s c t /\ Forall good (blocks c t).
 Proof.
-  intros n H. apply nobrace_in. intros c Hc. apply word_forall in H.
-  rewrite forallb_forall in H. apply H in Hc. apply is_word_facts in Hc. lia.
-Qed.
-
-Lemma nobrace_app : forall a b, nobrace a = true -> nobrace b = true -> nobrace (a ++ b) = true.
-Proof. intros. unfold nobrace in *. rewrite forallb_app, H, H0. reflexivity. Qed.
-
-Lemma marker_nobrace : forall n, word n = true -> nobrace (unknown_marker n) = true.
-Proof.
-  intros. unfold unknown_marker. apply nobrace_app; [reflexivity|].
-  apply nobrace_app; [apply word_nobrace; auto|reflexivity].
-Qed.
-
-Lemma tail_passes : forall c L3 w0 rest,
-  delimiter_free c = true -> wf_leaves L3 -> Forall (filt_ok c) L3 ->
-  match pass_filtered c (print_leaves L3) with
-  | inr e => Err e
-  | inl s4 =>
-      let s5 := pass_default c s4 in
-      let s6 := pass_optional c s5 in
-      Ok (pass_simple c s6) (w0 ++ rest s6)
-  end = Ok (print_leaves (map (final_leaf c) L3))
-           (w0 ++ rest (print_leaves (map (opt_leaf c) (map (def_leaf c) (map (filt_leaf c) L3))))).
-Proof.
-  intros c L3 w0 rest Hc Hwf Hok.
-  rewrite pass_filtered_leaves by auto.
-  assert (W1 : wf_leaves (map (filt_leaf c) L3)) by (apply map_wf; auto using filt_leaf_wf).
-  cbv zeta. rewrite pass_default_leaves by auto.
-  assert (W2 : wf_leaves (map (def_leaf c) (map (filt_leaf c) L3))) by (apply map_wf; auto using def_leaf_wf).
-  rewrite pass_optional_leaves by auto.
-  assert (W3 : wf_leaves (map (opt_leaf c) (map (def_leaf c) (map (filt_leaf c) L3))))
-    by (apply map_wf; auto using opt_leaf_wf).
-  rewrite pass_simple_leaves by auto.
-  rewrite !map_map. reflexivity.
-Qed.
-
-Theorem render_eq_fuel : forall T c,
-  delimiter_free c = true -> templates_wf T ->
-  forall fuel t txt miss,
-    well_formed t = true ->
-    render_tpl fuel false T c t = SOk txt miss ->
-    exists R w, translate fuel false (print_templates T) c (print t) = Ok (print_leaves R) w /\
-                print_leaves R = txt /\ Forall (stable c) R.
-Proof.
-  intros T c Hc HT. induction fuel as [|f IH]; intros t txt miss Hwf H; [discriminate|].
-  cbn [render_tpl] in H. rewrite render_nodes_blocks in H.
-  set (incf := fun n => match lookup T n with
-                        | Some t' => render_tpl f false T c t'
-                        | None => SOk (unknown_marker n) []
-                        end) in H.
-  set (render := fun n => match lookup (print_templates T) n with
-                          | Some sq => Some (translate f false (print_templates T) c sq)
-                          | None => None
-                          end).
-  assert (Hrel : forall n tn mn, word n = true -> incf n = SOk tn mn ->
-            exists Rn, include_cb render n [] = inl (print_leaves Rn) /\
-                       print_leaves Rn = tn /\ Forall (stable c) Rn).
-  { intros n tn mn Hn Hi. unfold incf in Hi. unfold include_cb, render.
-    rewrite lookup_print_templates. destruct (lookup T n) as [t'|] eqn:L; cbn [option_map].
-    - destruct (IH t' tn mn (lookup_wf T n t' HT L) Hi) as (Rn & w & E & P & S).
-      exists Rn. rewrite E. auto.
-    - inversion Hi; subst. exists [LText (unknown_marker n)].
-      rewrite print_leaves_cons1, print_leaves_nil, app_nil_r. cbn [print_leaf].
-      repeat split; auto. constructor; [|constructor].
-      unfold stable. cbn. repeat split; auto. apply marker_nobrace; auto. }
-  assert (HB : wf_leaves (blocks c t)) by (apply blocks_wf; auto).
-  destruct (include_leaves c incf render Hrel (blocks c t) txt miss HB H)
-    as (L3 & E3 & W3 & N3 & F3 & P3).
-  cbn [translate]. rewrite passes_blocks by auto.
-  fold render. rewrite pass_include_unfold.
-  rewrite (scan_leaves_nil (m_include idz) act_inc (blocks c t) no_include HB agrees_include).
-  rewrite E3.
-  match goal with |- context [Ok _ (?w0 ++ ?wf ++ warn_simple c _)] =>
-    pose proof (tail_passes c L3 (w0 ++ wf) (fun s6 => warn_simple c s6) Hc W3 F3) as TP end.
-  cbv zeta in TP. cbv zeta.
-  destruct (pass_filtered c (print_leaves L3)) as [s4|e] eqn:E4.
-  - rewrite <- app_assoc in TP. inversion TP as [[TP1 TP2]].
-    rewrite TP1. eexists. eexists. split; [reflexivity|]. split; auto.
-    clear - Hc W3 N3 F3. induction L3 as [|l L3 IHl]; [constructor|].
-    inversion W3; inversion N3; inversion F3; subst. cbn [map]. constructor; auto.
-    apply final_leaf_stable; auto.
-  - discriminate.
-Qed.
-
-Lemma templates_wf_b : forall T, forallb (fun nt => well_formed (snd nt)) T = true -> templates_wf T.
-Proof. intros T H. apply Forall_forall. rewrite forallb_forall in H. exact H. Qed.
-
-Theorem render_eq_proof : forall T c t txt miss,
-  delimiter_free c = true ->
-  forallb (fun nt => well_formed (snd nt)) T = true -> well_formed t = true ->
-  render_spec false T c t = SOk txt miss ->
-  exists w, render_impl false (print_templates T) c (print t) = Ok txt w.
-Proof.
-  intros T c t txt miss Hc HT Hwf H. unfold render_spec in H. unfold render_impl.
-  assert (E : length (print_templates T) = length T) by (unfold print_templates; apply map_length).
-  rewrite E.
-  destruct (render_eq_fuel T c Hc (templates_wf_b T HT) (S (length T)) t txt miss Hwf H)
-    as (R & w & E1 & E2 & _).
-  exists w. rewrite E1, E2. reflexivity.
+  intros c t Hc. induction t as [|n t IH]; intros H; [split; [reflexivity|constructor]|].
+  cbn [well_formed forallb] in H. apply andb_prop in H. destruct H as [Hn Ht].
+  destruct (IH Ht) as [E G]. unfold blocks, blocks_s. cbn [flat_map].
+  fold (blocks c t). fold (blocks_s c t). rewrite map_app, E. rewrite Forall_app.
+  assert (Q : map unsh_leaf (block_leaves c n) = block_leaves_s c n /\ Forall good (block_leaves c n)).
+  { destruct n as [l|ws x a b|ws x body]; cbn [block_leaves block_leaves_s].
+    - apply twf_rel. constructor; [exact Hn|constructor].
+    - destruct (node_twf_if ws x a b Hn) as (Ha & Hb). apply twf_rel. apply if_branch_twf; auto.
+    - pose proof (node_twf_each ws x body Hn) as Hbody.
+      destruct (lookup c x) as [[s0|z|b0|items]|] eqn:L; try (split; [reflexivity|constructor]).
+      apply loop_leaves_rel; auto. eapply lookup_items_ok; eauto. }
+  destruct Q as [Q1 Q2]. rewrite Q1. auto.
 Qed.
 
 (* ------------------------------------------------------------------ *)
-(* O. missing plain variables are reported; unknown includes give the marker *)
+(* P. missing plain variables are reported; unknown includes give the marker *)
 
 Definition act_word (l : leaf) : option str :=
   match l with LVar x => if word x then Some x else None | _ => None end.
 
-Lemma agrees_simple_word : forall l, leaf_wf l = true -> agrees _ (m_simple idz) act_word l.
+Lemma agrees_simple_word : forall l, leaf_sc l = true -> agrees _ (m_simple idz) act_word l.
 Proof.
   intros l H s. pose proof (agrees_simple l H s) as A.
   destruct l as [t|x| |x|x w|x]; cbn [act_word act_var] in *; auto.
-  cbn [leaf_wf] in H. rewrite H. exact A.
+  cbn [leaf_sc] in H. rewrite H. exact A.
 Qed.
 
 Lemma agrees_simple_pseudo : forall k body, is_word k = false ->
@@ -2246,7 +2142,7 @@ Proof.
   { intros ls Hls. eapply Forall_impl; [|exact Hls]. cbn. intros l Hl.
     split; auto using leaf_shape, agrees_simple_word. }
   destruct n as [l|ws x a b|ws x body]; cbn [node_leaves].
-  - apply WL. repeat constructor; auto.
+  - cbn in Hn. apply wf_sc in Hn. apply WL. repeat constructor; auto.
   - destruct (node_wf_if ws x a b Hn) as (Hws & Hx & Ha & Hb).
     constructor. { split. apply shaped_P_IF; auto. apply agrees_simple_pseudo. reflexivity. }
     apply Forall_app. split; [apply WL; auto|]. apply Forall_app. split.
@@ -2309,7 +2205,8 @@ Proof.
       exists (LVar x). split; auto. cbn. rewrite Hw. reflexivity. }
     assert (Q : exists l, In l (node_leaves n) /\ act_word l = Some x).
     { destruct n as [l|ws y a b|ws y body]; cbn [node_vars node_leaves] in *.
-      - destruct (K [l]) as (l0 & Hl0 & A); [constructor; auto; constructor|cbn; rewrite app_nil_r; auto|].
+      - cbn in Hnw. apply wf_sc in Hnw.
+        destruct (K [l]) as (l0 & Hl0 & A); [constructor; auto; constructor|cbn; rewrite app_nil_r; auto|].
         eauto.
       - destruct (node_wf_if ws y a b Hnw) as (_ & _ & Ha & Hb).
         apply in_app_or in Hx. destruct Hx as [Hx|Hx].
@@ -2326,37 +2223,603 @@ Proof.
   destruct G as (l & Hl & A). apply in_flat_map. exists l. split; auto. rewrite A. left. reflexivity.
 Qed.
 
-Lemma bound_false : forall c x, lookup c x = None -> @bound value c x = false.
-Proof. intros. unfold bound. rewrite H. reflexivity. Qed.
+
+(* the each scanner over ALL nodes (if-blocks are copied) *)
+Lemma agrees_each_P_IF : forall ws x, agrees _ (m_each idz) act_none (P_IF ws x).
+Proof. intros ws x s. cbn. reflexivity. Qed.
+Lemma agrees_each_P_ELSE : agrees _ (m_each idz) act_none P_ELSE.
+Proof. intros s. cbn. reflexivity. Qed.
+Lemma agrees_each_P_ENDIF : agrees _ (m_each idz) act_none P_ENDIF.
+Proof. intros s. cbn. reflexivity. Qed.
+
+Lemma scan_each_all : forall t s, well_formed t = true ->
+  scan (m_each idz) O (print t ++ s) = flat_map each_toks t ++ scan (m_each idz) O s.
+Proof.
+  induction t as [|n t IH]; intros s Hwf; [reflexivity|].
+  cbn [well_formed forallb] in Hwf. apply andb_prop in Hwf. destruct Hwf as [Hn Ht].
+  unfold print. cbn [flat_map]. fold (print t). rewrite <- !app_assoc. rewrite <- (IH s Ht).
+  set (rest := print t ++ s).
+  destruct n as [l|ws c a b|ws x body]; cbn [each_toks].
+  - cbn [node_wf] in Hn. apply wf_sc in Hn.
+    pose proof (scan_leaves _ (m_each idz) act_none no_each [l] rest) as E.
+    rewrite print_leaves_cons1, print_leaves_nil, app_nil_r in E. cbn [print_node].
+    rewrite E.
+    + rewrite toks_none. rewrite print_leaves_cons1, print_leaves_nil, app_nil_r. reflexivity.
+    + constructor; [|constructor]. split; auto using leaf_shape, agrees_each.
+  - destruct (node_wf_if ws c a b Hn) as (Hws & Hc & Ha & Hb).
+    rewrite print_node_leaves.
+    rewrite (scan_leaves _ (m_each idz) act_none no_each (node_leaves (NIf ws c a b)) rest).
+    + rewrite toks_none. reflexivity.
+    + cbn [node_leaves]. constructor.
+      * split. apply shaped_P_IF; auto. apply agrees_each_P_IF.
+      * apply Forall_app. split; [apply wf_shaped_agrees; auto using agrees_each|].
+        apply Forall_app. split.
+        -- destruct b as [b'|]; cbn [else_leaves]; [|constructor]. constructor.
+           ++ split. apply shaped_P_ELSE. apply agrees_each_P_ELSE.
+           ++ apply wf_shaped_agrees; auto using agrees_each.
+        -- constructor; [|constructor]. split. apply shaped_P_ENDIF. apply agrees_each_P_ENDIF.
+  - destruct (node_wf_each ws x body Hn) as (Hws & Hx & Hbody).
+    cbn [app]. apply scan_match'.
+    + cbn. discriminate.
+    + rewrite pr_each, len_each. apply m_each_shape; auto.
+Qed.
+
+Definition not_each (n : node) : bool := match n with NEach _ _ _ => false | _ => true end.
+Definition drop_each (t : template) : template := filter not_each t.
+
+Lemma outside_loops_print : forall t, well_formed t = true ->
+  outside_loops (print t) = print (drop_each t).
+Proof.
+  intros t Hwf. unfold outside_loops.
+  pose proof (scan_each_all t [] Hwf) as E. rewrite app_nil_r in E. cbn [scan] in E.
+  rewrite app_nil_r in E. rewrite E. clear E Hwf.
+  induction t as [|n t IH]; [reflexivity|].
+  cbn [flat_map]. rewrite subst_app, IH. unfold drop_each. cbn [filter].
+  destruct n as [l|ws x a b|ws x body]; cbn [each_toks not_each].
+  - rewrite subst_lits. reflexivity.
+  - rewrite subst_lits. reflexivity.
+  - reflexivity.
+Qed.
+
+Lemma find_sub_exists : forall p a b, find_sub idz p (a ++ p ++ b) <> None.
+Proof.
+  intros p a b. induction a as [|x a IH]; cbn [app].
+  - rewrite find_sub_here. discriminate.
+  - rewrite find_sub_eq. destruct (starts idz p (x :: a ++ p ++ b)); [discriminate|].
+    destruct (find_sub idz p (a ++ p ++ b)) as [[u v]|]; [discriminate|congruence].
+Qed.
+
+Lemma occurs_in : forall p a b, occurs p (a ++ p ++ b) = true.
+Proof.
+  intros. unfold occurs. pose proof (find_sub_exists p a b).
+  destruct (find_sub idz p (a ++ p ++ b)); congruence.
+Qed.
+
+Lemma in_print_leaves : forall l ls, In l ls ->
+  exists a b, print_leaves ls = a ++ print_leaf l ++ b.
+Proof.
+  intros l ls H. apply in_split in H. destruct H as (l1 & l2 & ->).
+  exists (print_leaves l1), (print_leaves l2).
+  rewrite print_leaves_app, print_leaves_cons1. reflexivity.
+Qed.
+
+(* the plain variables written outside {{#each}} bodies *)
+Definition plain_vars_out (t : template) : list str := plain_vars (drop_each t).
+
+Lemma drop_each_wf : forall t, well_formed t = true -> well_formed (drop_each t) = true.
+Proof.
+  intros t H. unfold well_formed, drop_each in *. apply forallb_forall. intros n Hn.
+  apply filter_In in Hn. rewrite forallb_forall in H. apply H. tauto.
+Qed.
+
+Lemma plain_vars_sub : forall t x, In x (plain_vars (drop_each t)) -> In x (plain_vars t).
+Proof.
+  intros t x H. unfold plain_vars, drop_each in *. apply in_flat_map in H.
+  destruct H as (n & Hn & Hx). apply filter_In in Hn. apply in_flat_map. exists n. tauto.
+Qed.
+
+Lemma var_leaf_in : forall t x, well_formed t = true -> In x (plain_vars t) ->
+  In (LVar x) (all_leaves t).
+Proof.
+  intros t x H Hin. unfold plain_vars in Hin. apply in_flat_map in Hin. destruct Hin as (n & Hn & Hx).
+  unfold all_leaves. apply in_flat_map. exists n. split; auto.
+  assert (K : forall ls, In x (flat_map leaf_var ls) -> In (LVar x) ls).
+  { intros ls Hi. apply in_flat_map in Hi. destruct Hi as (l & Hl & Hl').
+    destruct l; cbn in Hl'; try tauto. destruct Hl' as [<-|[]]. exact Hl. }
+  destruct n as [l|ws y a b|ws y body]; cbn [node_vars node_leaves] in *.
+  - left. destruct l; cbn in Hx; try tauto. destruct Hx as [<-|[]]. reflexivity.
+  - right. apply in_app_or in Hx. destruct Hx as [Hx|Hx].
+    + apply in_or_app. left. auto.
+    + apply in_or_app. right. apply in_or_app. left. destruct b; cbn in *; [right; auto|tauto].
+  - right. apply in_or_app. left. auto.
+Qed.
+
+Lemma missing_vars_in : forall c t x, well_formed t = true ->
+  In x (plain_vars_out t) -> lookup c x = None -> In x (missing_vars false c (print t)).
+Proof.
+  intros c t x Hwf Hin L. unfold missing_vars. apply filter_In. split.
+  - apply plain_vars_required; auto. apply plain_vars_sub. exact Hin.
+  - unfold bound. rewrite L. cbn [negb andb orb].
+    rewrite outside_loops_print by auto.
+    pose proof (var_leaf_in (drop_each t) x (drop_each_wf t Hwf) Hin) as Hl.
+    rewrite print_all_leaves.
+    destruct (in_print_leaves _ _ Hl) as (a & b & ->). apply occurs_in.
+Qed.
+
+(* ------------------------------------------------------------------ *)
+(* Q. strict mode                                                        *)
+
+(* where "{{x}}" can occur in a printed template: only as a plain-variable leaf *)
+Lemma m_lit_kind : forall k0 p k t, k <> k0 -> m_lit idz (123 :: 123 :: k0 :: p) (123 :: 123 :: k :: t) = None.
+Proof. intros. unfold m_lit. cbn. unfold idz. zeq. Qed.
+
+Lemma agrees_key_pseudo : forall x k body, word x = true -> is_word k = false ->
+  agrees _ (m_lit idz (key_pattern x)) (act_key x) (LVar (k :: body)).
+Proof.
+  intros x k body Hx Hk s. destruct (word_cons x Hx) as (x0 & x' & -> & Hx0 & Hx').
+  cbn [act_key]. destruct (str_eqb (x0 :: x') (k :: body)) eqn:E.
+  - apply str_eqb_eq in E. inversion E; subst. congruence.
+  - rewrite pr_var. unfold key_pattern, K_OPEN. cbn [app]. apply m_lit_kind. congruence.
+Qed.
+
+Lemma all_leaves_key : forall t x, well_formed t = true -> word x = true ->
+  Forall (fun l => shaped l /\ agrees _ (m_lit idz (key_pattern x)) (act_key x) l) (all_leaves t).
+Proof.
+  intros t x H Hx. assert (Hk : key_ok x = true) by (unfold key_ok; rewrite Hx; reflexivity).
+  induction t as [|n t IH]; [constructor|].
+  cbn [well_formed forallb] in H. apply andb_prop in H. destruct H as [Hn Ht].
+  unfold all_leaves. cbn [flat_map]. apply Forall_app. split; [|apply IH; auto].
+  assert (WL : forall ls, wf_leaves ls ->
+           Forall (fun l => shaped l /\ agrees _ (m_lit idz (key_pattern x)) (act_key x) l) ls).
+  { intros ls Hls. eapply Forall_impl; [|exact Hls]. cbn. intros l Hl.
+    split; [apply leaf_shape; auto|apply agrees_key; auto]. }
+  destruct n as [l|ws y a b|ws y body]; cbn [node_leaves].
+  - cbn in Hn. apply wf_sc in Hn. apply WL. repeat constructor; auto.
+  - destruct (node_wf_if ws y a b Hn) as (Hws & Hy & Ha & Hb).
+    constructor. { split. apply shaped_P_IF; auto. apply agrees_key_pseudo; auto. }
+    apply Forall_app. split; [apply WL; auto|]. apply Forall_app. split.
+    + destruct b as [b'|]; cbn [else_leaves]; [|constructor]. constructor.
+      * split. apply shaped_P_ELSE. apply agrees_key_pseudo; auto.
+      * apply WL. exact Hb.
+    + constructor; [|constructor]. split. apply shaped_P_ENDIF. apply agrees_key_pseudo; auto.
+  - destruct (node_wf_each ws y body Hn) as (Hws & Hy & Hbody).
+    constructor. { split. apply shaped_P_EACH; auto. apply agrees_key_pseudo; auto. }
+    apply Forall_app. split; [apply WL; auto|].
+    constructor; [|constructor]. split. apply shaped_P_ENDEACH. apply agrees_key_pseudo; auto.
+Qed.
+
+Lemma toks_all_none : forall {M} (act : leaf -> option M) ls,
+  (forall l, In l ls -> act l = None) ->
+  flat_map (leaf_toks M act) ls = map TLit (print_leaves ls).
+Proof.
+  intros M act ls H. induction ls as [|l ls IH]; [reflexivity|].
+  cbn [flat_map]. rewrite print_leaves_cons1, map_app, IH by (intros; apply H; right; auto).
+  f_equal. unfold leaf_toks. rewrite (H l) by (left; auto). reflexivity.
+Qed.
+
+Lemma occurs_var : forall t x, well_formed t = true -> word x = true ->
+  occurs (key_pattern x) (print t) = true -> In x (plain_vars t).
+Proof.
+  intros t x Hwf Hx Ho.
+  assert (Hk : key_ok x = true) by (unfold key_ok; rewrite Hx; reflexivity).
+  destruct (existsb (fun l => match act_key x l with Some _ => true | None => false end) (all_leaves t)) eqn:E.
+  - apply existsb_exists in E. destruct E as (l & Hl & A).
+    destruct l as [s|y| |y|y w|y]; cbn [act_key] in A; try discriminate.
+    + destruct (str_eqb x y) eqn:Exy; [|discriminate]. apply str_eqb_eq in Exy. subst y.
+      (* LVar x is a real leaf: the pseudo-leaves are not words *)
+      unfold all_leaves in Hl. apply in_flat_map in Hl. destruct Hl as (n & Hn & Hl).
+      unfold plain_vars. apply in_flat_map. exists n. split; auto.
+      assert (Q : forall ls, In (LVar x) ls -> In x (flat_map leaf_var ls)).
+      { intros ls Hi. apply in_flat_map. exists (LVar x). split; auto. left; auto. }
+      assert (NP : forall k body, is_word k = false -> LVar x <> LVar (k :: body)).
+      { intros k body Hkb Eq. inversion Eq; subst. cbn in Hx. rewrite Hkb in Hx. discriminate. }
+      destruct n as [l|ws y a b|ws y body]; cbn [node_leaves node_vars] in *.
+      * destruct Hl as [Hl|[]]. subst l. left. reflexivity.
+      * destruct Hl as [Hl|Hl]; [exfalso; eapply NP; [|symmetry; exact Hl]; reflexivity|].
+        apply in_app_or in Hl. destruct Hl as [Hl|Hl]; [apply in_or_app; left; auto|].
+        apply in_app_or in Hl. destruct Hl as [Hl|Hl].
+        -- apply in_or_app. right. destruct b as [b'|]; cbn [else_leaves opt_leaves] in *; [|destruct Hl].
+           destruct Hl as [Hl|Hl]; [exfalso; eapply NP; [|symmetry; exact Hl]; reflexivity|auto].
+        -- destruct Hl as [Hl|[]]. exfalso. eapply NP; [|symmetry; exact Hl]. reflexivity.
+      * destruct Hl as [Hl|Hl]; [exfalso; eapply NP; [|symmetry; exact Hl]; reflexivity|].
+        apply in_app_or in Hl. destruct Hl as [Hl|Hl]; auto.
+        destruct Hl as [Hl|[]]. exfalso. eapply NP; [|symmetry; exact Hl]. reflexivity.
+    + destruct (str_eqb x K_DOT) eqn:Exd; [|discriminate]. apply str_eqb_eq in Exd. subst x.
+      discriminate.
+  - (* no leaf matches: the literal does not occur at all *)
+    exfalso. unfold occurs in Ho.
+    assert (Hnone : forall l, In l (all_leaves t) -> act_key x l = None).
+    { intros l Hl. destruct (act_key x l) eqn:A; auto.
+      assert (existsb (fun l => match act_key x l with Some _ => true | None => false end) (all_leaves t) = true).
+      { apply existsb_exists. exists l. rewrite A. auto. }
+      congruence. }
+    pose proof (scan_shaped_nil (m_lit idz (key_pattern x)) (act_key x) (all_leaves t)
+                  (no_lit_key x Hk) (all_leaves_key t x Hwf Hx)) as S.
+    rewrite toks_all_none in S by auto.
+    rewrite print_all_leaves in Ho.
+    assert (F : find_sub idz (key_pattern x) (print_leaves (all_leaves t) ++ []) = None).
+    { assert (S' : scan (m_lit idz (key_pattern x)) O (print_leaves (all_leaves t) ++ []) =
+                   map TLit (print_leaves (all_leaves t)) ++ scan (m_lit idz (key_pattern x)) O []).
+      { rewrite app_nil_r. cbn [scan]. rewrite app_nil_r. exact S. }
+      rewrite find_sub_skip; [reflexivity|]. intros u v Euv Hv.
+      apply m_lit_starts; [unfold key_pattern, K_OPEN; discriminate|].
+      eapply (scan_lits_nomatch (m_lit idz (key_pattern x)) (print_leaves (all_leaves t)) [] S'); eauto. }
+    rewrite app_nil_r in F. rewrite F in Ho. discriminate.
+Qed.
+
+Lemma required_word : forall t x, well_formed t = true -> In x (required_vars (print t)) -> word x = true.
+Proof.
+  intros t x H Hin. rewrite required_vars_eq in Hin by auto. apply in_flat_map in Hin.
+  destruct Hin as (l & _ & Hl). destruct l; cbn in Hl; try tauto.
+  destruct (word x0) eqn:W; [destruct Hl as [<-|[]]; auto|destruct Hl].
+Qed.
+
+(* the up-front check finds nothing when every plain variable outside loops is bound *)
+Definition out_bound (c : ctx) (t : template) : Prop :=
+  forall x, In x (plain_vars_out t) -> lookup c x <> None.
+
+Lemma missing_none : forall c t, well_formed t = true -> out_bound c t ->
+  missing_vars false c (print t) = [].
+Proof.
+  intros c t Hwf Hb. unfold missing_vars.
+  destruct (filter _ (required_vars (print t))) as [|x xs] eqn:E; [reflexivity|exfalso].
+  assert (Hx : In x (filter (fun x => negb (bound c x) && (false || occurs (key_pattern x) (outside_loops (print t))))
+                            (required_vars (print t)))) by (rewrite E; left; auto).
+  apply filter_In in Hx. destruct Hx as [Hr Hx]. apply andb_prop in Hx. destruct Hx as [Hu Ho].
+  cbn [orb] in Ho. rewrite outside_loops_print in Ho by auto.
+  pose proof (required_word t x Hwf Hr) as Hw.
+  apply occurs_var in Ho; auto using drop_each_wf.
+  apply (Hb x Ho). unfold bound in Hu. destruct (lookup c x); [discriminate|reflexivity].
+Qed.
+(* ------------------------------------------------------------------ *)
+(* O. leaves to final text; includes; the rendering theorem               *)
+
+Lemma unshield_print_leaves : forall ls,
+  unshield (print_leaves ls) = flat_map (fun l => unshield (print_leaf l)) ls.
+Proof.
+  induction ls as [|l ls IH]; [reflexivity|].
+  rewrite print_leaves_cons1, unshield_app, IH. reflexivity.
+Qed.
+
+Lemma print_var_nosent : forall x, word x = true -> nosent (print_leaf (LVar x)) = true.
+Proof.
+  intros. unfold print_leaf. apply nosent_app; [reflexivity|]. apply nosent_app; [|reflexivity].
+  apply word_nosent. apply word_forall. auto.
+Qed.
+
+Lemma leaf_final : forall strict c inc l t m,
+  ctx_ok c = true -> good l -> act_inc l = None ->
+  render_leaf strict c inc None (unsh_leaf l) = SOk t m ->
+  (filt_ok c l /\ var_ok strict c l) /\ unshield (print_leaf (final_leaf c l)) = t.
+Proof.
+  intros strict c inc l t m Hc Hg Hni H. unfold final_leaf.
+  destruct l as [s|x| |x|x w|x]; try discriminate.
+  - cbn in H. inversion H; subst. split; [split; exact I|reflexivity].
+  - destruct Hg as [Hwf|(v & E & _)]; [|discriminate]. cbn [leaf_wf] in Hwf.
+    cbn [unsh_leaf render_leaf] in H.
+    cbn [filt_leaf def_leaf opt_leaf simple_leaf var_ok].
+    destruct (lookup c x) as [v|] eqn:L.
+    + inversion H; subst. split; [split; [exact I|intros _; discriminate]|].
+      cbn [print_leaf]. apply unshield_shield. eapply lookup_nosent; eauto.
+    + destruct strict; [discriminate|]. inversion H; subst.
+      split; [split; [exact I|intros; discriminate]|].
+      apply unshield_id. apply print_var_nosent. auto.
+  - cbn in H. inversion H; subst. split; [split; exact I|reflexivity].
+  - cbn [unsh_leaf render_leaf] in H. split; [split; exact I|].
+    cbn [filt_leaf def_leaf opt_leaf simple_leaf print_leaf].
+    destruct (lookup c x) as [v|] eqn:L; inversion H; subst.
+    + apply unshield_shield. eapply lookup_nosent; eauto.
+    + reflexivity.
+  - destruct Hg as [Hwf|(v & E & _)]; [|discriminate].
+    assert (Hw : nosent w = true /\ word x = true).
+    { cbn [leaf_wf] in Hwf. apply andb_prop in Hwf. destruct Hwf as [Hwf _].
+      apply andb_prop in Hwf. destruct Hwf as [Hwf Hcl]. apply andb_prop in Hwf.
+      destruct Hwf as [Hx _]. auto using clean_nosent. }
+    destruct Hw as [Hw Hx].
+    assert (Hverb : unshield (print_leaf (LPipe x w)) = print_leaf (LPipe x w)).
+    { apply unshield_id. unfold print_leaf. apply nosent_app; [reflexivity|].
+      apply nosent_app; [apply word_nosent, word_forall; auto|].
+      apply nosent_app; [reflexivity|]. apply nosent_app; [auto|reflexivity]. }
+    cbn [unsh_leaf render_leaf] in H. cbn [filt_ok filt_leaf var_ok]. unfold filt_text.
+    destruct (is_filter w) eqn:F.
+    + rewrite (is_filter_word w F).
+      destruct (lookup c x) as [v|] eqn:L.
+      * pose proof (lookup_nosent c x v Hc L) as Hv.
+        destruct (apply_filter w v) as [s|e] eqn:A; inversion H; subst.
+        split. { split; [|exact I]. intros v' Hv' _. inversion Hv'; subst. eauto. }
+        cbn. apply unshield_shield. eapply apply_filter_nosent; eauto.
+      * inversion H; subst. split. { split; [|exact I]. intros v' Hv'. discriminate. }
+        cbn [def_leaf]. rewrite F. exact Hverb.
+    + split. { split; [|exact I]. intros v' _ Hf. discriminate. }
+      destruct (forallb is_word w).
+      * destruct (lookup c x) as [v|] eqn:L; inversion H; subst.
+        -- cbn. apply unshield_shield. eapply lookup_nosent; eauto.
+        -- cbn [def_leaf]. rewrite F. rewrite L. cbn. apply unshield_shield. auto.
+      * cbn [def_leaf]. rewrite F. destruct (lookup c x) as [v|] eqn:L; inversion H; subst; cbn;
+          apply unshield_shield; auto. eapply lookup_nosent; eauto.
+Qed.
+
+Lemma subst_err_app : forall {M} (f : M -> str -> str + error) (a b : list (tok Z M)),
+  subst_err f (a ++ b) =
+  match subst_err f a with
+  | inl x => match subst_err f b with inl y => inl (x ++ y) | inr e => inr e end
+  | inr e => inr e
+  end.
+Proof.
+  intros M f a b. induction a as [|t a IH]; cbn [app subst_err].
+  - destruct (subst_err f b); reflexivity.
+  - destruct t as [z|m cv].
+    + rewrite IH. destruct (subst_err f a); [destruct (subst_err f b)|]; reflexivity.
+    + destruct (f m cv); [|reflexivity]. rewrite IH.
+      destruct (subst_err f a); [destruct (subst_err f b)|]; try reflexivity.
+      rewrite app_assoc. reflexivity.
+Qed.
+
+Lemma subst_err_lits_nil : forall {M} (f : M -> str -> str + error) p,
+  subst_err f (map TLit p) = inl p.
+Proof.
+  intros. pose proof (subst_err_lits f p []) as E. rewrite app_nil_r in E. rewrite E.
+  cbn. rewrite app_nil_r. reflexivity.
+Qed.
+
+(* resolving the include matches first does not change the assembled text *)
+Definition tok_data {M R} (h : M -> R) (t : tok Z M) : tok Z R :=
+  match t with TLit a => TLit a | TMatch m c => TMatch (h m) c end.
+
+Lemma subst_err_map : forall {M R} (h : M -> R) (f : R -> str -> str + error) (ts : list (tok Z M)),
+  subst_err f (map (tok_data h) ts) = subst_err (fun m c => f (h m) c) ts.
+Proof.
+  intros. induction ts as [|[a|m c] ts IH]; cbn [map tok_data subst_err]; auto.
+  - rewrite IH. reflexivity.
+  - destruct (f (h m) c); auto. rewrite IH. reflexivity.
+Qed.
+
+Lemma matches_map : forall {M R} (h : M -> R) (ts : list (tok Z M)),
+  matches (map (tok_data h) ts) = map (fun mc => (h (fst mc), snd mc)) (matches ts).
+Proof.
+  intros. unfold matches. induction ts as [|[a|m c] ts IH]; cbn; auto. f_equal. exact IH.
+Qed.
+
+Lemma include_text_eq : forall legacy (render : str -> option outcome) s,
+  include_text legacy (resolve_includes render s) =
+  subst_err (fun n c => include_cb legacy (n, render n) c) (scan (m_include idz) O s).
+Proof.
+  intros. unfold include_text, resolve_includes.
+  change (fun t : tok Z str => match t with TLit a => TLit a | TMatch n c => TMatch (n, render n) c end)
+    with (tok_data (fun n : str => (n, render n))).
+  apply subst_err_map.
+Qed.
+
+Definition no_inc (ls : list leaf) : Prop := Forall (fun l => act_inc l = None) ls.
+
+Section IncludeStep.
+  Variable strict : bool.
+  Variable c : ctx.
+  Variable inc : str -> sres.
+  Variable render : str -> option outcome.
+  Hypothesis Hc : ctx_ok c = true.
+  Hypothesis Hrel : forall n tn mn, word n = true -> inc n = SOk tn mn ->
+    exists s, include_cb false (n, render n) [] = inl s /\ nobrace s = true /\ unshield s = tn.
+
+  Lemma include_leaves : forall L txt miss,
+    Forall good L -> render_leaves strict c inc None (map unsh_leaf L) = SOk txt miss ->
+    exists L3, subst_err (fun n cv => include_cb false (n, render n) cv)
+                         (flat_map (leaf_toks _ act_inc) L) = inl (print_leaves L3) /\
+               wf_leaves L3 /\ no_inc L3 /\ Forall (fun l => filt_ok c l /\ var_ok strict c l) L3 /\
+               unshield (print_leaves (map (final_leaf c) L3)) = txt.
+  Proof.
+    induction L as [|l L IH]; intros txt miss Hg H.
+    - cbn in H. inversion H; subst. exists []. repeat split; constructor.
+    - inversion Hg as [|? ? Hl HL]; subst. cbn [map] in H.
+      change (unsh_leaf l :: map unsh_leaf L) with ([unsh_leaf l] ++ map unsh_leaf L) in H.
+      rewrite render_leaves_app in H.
+      apply sapp_ok in H. destruct H as (t1 & m1 & t2 & m2 & R1 & R2 & -> & ->).
+      destruct (IH t2 m2 HL R2) as (L3 & E3 & W3 & N3 & F3 & P3).
+      unfold render_leaves in R1. cbn [map] in R1. rewrite sconcat_cons in R1.
+      change (sconcat []) with (SOk [] []) in R1.
+      apply sapp_ok in R1. destruct R1 as (t1' & m1' & t0 & m0 & R1 & R0 & -> & ->).
+      inversion R0; subst t0 m0. rewrite app_nil_r.
+      cbn [flat_map]. rewrite subst_err_app, E3.
+      destruct (act_inc l) as [n|] eqn:Ea.
+      + destruct l as [t|x| |x|x w|x]; try discriminate. cbn [act_inc] in Ea. inversion Ea; subst x.
+        destruct Hl as [Hl|(v & E & _)]; [|discriminate]. cbn [leaf_wf] in Hl.
+        cbn [unsh_leaf render_leaf] in R1.
+        destruct (Hrel n t1' m1' Hl R1) as (s & Ecb & Hnb & Hun).
+        exists (LText s :: L3). unfold leaf_toks. cbn [act_inc]. cbn [subst_err].
+        unfold include_cb in *. rewrite Ecb. cbn [app]. rewrite app_nil_r.
+        split. { rewrite print_leaves_cons1. reflexivity. }
+        split. { constructor; auto. }
+        split. { constructor; auto. }
+        split. { constructor; auto. split; exact I. }
+        cbn [map]. rewrite print_leaves_cons1, unshield_app, P3. f_equal. exact Hun.
+      + exists (l :: L3). unfold leaf_toks. rewrite Ea.
+        rewrite subst_err_lits_nil.
+        destruct (leaf_final strict c inc l t1' m1' Hc Hl Ea R1) as [Hok Pl].
+        split. { rewrite print_leaves_cons1. reflexivity. }
+        split. { constructor; auto using good_sc. }
+        split. { constructor; auto. }
+        split. { constructor; auto. }
+        cbn [map]. rewrite print_leaves_cons1, unshield_app, Pl, P3. reflexivity.
+  Qed.
+End IncludeStep.
+
+Definition templates_wf (T : list (str * template)) : Prop :=
+  Forall (fun nt => well_formed (snd nt) = true) T.
+
+Lemma lookup_print_templates : forall T n,
+  lookup (print_templates T) n = option_map print (lookup T n).
+Proof.
+  induction T as [|[k t] T IH]; intros n; [reflexivity|].
+  cbn. destruct (str_eqb k n); auto.
+Qed.
+
+Lemma lookup_wf : forall T n t, templates_wf T -> lookup T n = Some t -> well_formed t = true.
+Proof.
+  induction T as [|[k u] T IH]; cbn; intros n t H L; [discriminate|].
+  inversion H; subst. destruct (str_eqb k n); [inversion L; subst; auto|eauto].
+Qed.
+
+Lemma word_nobrace : forall n, word n = true -> nobrace n = true.
+Proof.
+  intros n H. apply nobrace_in. intros c Hc. apply word_forall in H.
+  rewrite forallb_forall in H. apply H in Hc. apply is_word_facts in Hc. lia.
+Qed.
+
+Lemma nobrace_app : forall a b, nobrace a = true -> nobrace b = true -> nobrace (a ++ b) = true.
+Proof. intros. unfold nobrace in *. rewrite forallb_app, H, H0. reflexivity. Qed.
+
+Lemma marker_nobrace : forall n, word n = true -> nobrace (unknown_marker n) = true.
+Proof.
+  intros. unfold unknown_marker. apply nobrace_app; [reflexivity|].
+  apply nobrace_app; [apply word_nobrace; auto|reflexivity].
+Qed.
+Lemma marker_nosent : forall n, word n = true -> nosent (unknown_marker n) = true.
+Proof.
+  intros. unfold unknown_marker. apply nosent_app; [reflexivity|].
+  apply nosent_app; [apply word_nosent, word_forall; auto|reflexivity].
+Qed.
+
+(* the four variable passes after the include pass *)
+Lemma var_ok_map : forall raise c (g : leaf -> leaf) ls,
+  (forall l, match g l with LVar x => l = LVar x | _ => True end) ->
+  Forall (var_ok raise c) ls -> Forall (var_ok raise c) (map g ls).
+Proof.
+  intros raise c g ls Hg H. apply Forall_forall. intros l Hl. apply in_map_iff in Hl.
+  destruct Hl as (l0 & <- & Hl0). rewrite Forall_forall in H. specialize (H l0 Hl0).
+  specialize (Hg l0). destruct (g l0); try exact I. subst l0. exact H.
+Qed.
+
+Lemma opt_leaf_var : forall c l, match opt_leaf c l with LVar x => l = LVar x | _ => True end.
+Proof. intros c l. destruct l; cbn [opt_leaf]; auto. Qed.
+Lemma def_leaf_var : forall c l, match def_leaf c l with LVar x => l = LVar x | _ => True end.
+Proof. intros c l. destruct l; cbn [def_leaf]; auto. destruct (is_filter w); exact I. Qed.
+Lemma filt_leaf_var : forall c l, match filt_leaf c l with LVar x => l = LVar x | _ => True end.
+Proof.
+  intros c l. destruct l; cbn [filt_leaf]; auto. destruct (forallb is_word w); [|exact I].
+  destruct (filt_text c x w); exact I.
+Qed.
+
+Lemma tail_passes : forall raise c L3,
+  wf_leaves L3 -> Forall (fun l => filt_ok c l /\ var_ok raise c l) L3 ->
+  pass_filtered false c (print_leaves L3) = inl (print_leaves (map (filt_leaf c) L3)) /\
+  pass_simple false raise c
+    (pass_optional false c (pass_default false c (print_leaves (map (filt_leaf c) L3)))) =
+  inl (print_leaves (map (final_leaf c) L3)).
+Proof.
+  intros raise c L3 Hwf Hok.
+  assert (Hf : Forall (filt_ok c) L3) by (eapply Forall_impl; [|exact Hok]; cbn; tauto).
+  assert (Hv : Forall (var_ok raise c) L3) by (eapply Forall_impl; [|exact Hok]; cbn; tauto).
+  split; [apply pass_filtered_leaves; auto|].
+  assert (W1 : wf_leaves (map (filt_leaf c) L3)) by (apply map_wf; auto using filt_leaf_sc).
+  rewrite pass_default_leaves by auto.
+  assert (W2 : wf_leaves (map (def_leaf c) (map (filt_leaf c) L3))) by (apply map_wf; auto using def_leaf_sc).
+  rewrite pass_optional_leaves by auto.
+  assert (W3 : wf_leaves (map (opt_leaf c) (map (def_leaf c) (map (filt_leaf c) L3))))
+    by (apply map_wf; auto using opt_leaf_sc).
+  rewrite pass_simple_leaves_gen; auto.
+  - rewrite !map_map. reflexivity.
+  - apply var_ok_map; [apply opt_leaf_var|]. apply var_ok_map; [apply def_leaf_var|].
+    apply var_ok_map; [apply filt_leaf_var|]. exact Hv.
+Qed.
+
+(* whatever translate returns is sentinel-free: it is an _unshield *)
+Lemma translate_nosent : forall fuel strict T c s t w,
+  translate false fuel strict T c s = Ok t w -> nosent t = true.
+Proof.
+  intros [|f] strict T c s t w H; [discriminate|]. cbn [translate] in H.
+  destruct (if strict then missing_vars false c s else []); [|discriminate].
+  destruct (include_text false _) as [s3|e]; [|discriminate].
+  destruct (pass_filtered false c s3) as [s4|e]; [|discriminate].
+  destruct (pass_simple false _ c _) as [s7|e]; [|discriminate].
+  inversion H; subst. apply unshield_nosent.
+Qed.
+
+Theorem render_eq_fuel : forall strict T c,
+  ctx_ok c = true -> templates_wf T ->
+  (strict = true -> Forall (fun nt => out_bound c (snd nt)) T) ->
+  forall fuel t txt miss,
+    well_formed t = true -> (strict = true -> out_bound c t) ->
+    render_tpl fuel strict T c t = SOk txt miss ->
+    exists w, translate false fuel strict (print_templates T) c (print t) = Ok txt w.
+Proof.
+  intros strict T c Hc HT HTb. induction fuel as [|f IH]; intros t txt miss Hwf Hb H; [discriminate|].
+  cbn [render_tpl] in H. rewrite render_nodes_blocks in H.
+  destruct (blocks_rel c t Hc Hwf) as [Erel Hgood]. rewrite <- Erel in H.
+  set (incf := fun n => match lookup T n with
+                        | Some t' => render_tpl f strict T c t'
+                        | None => SOk (unknown_marker n) []
+                        end) in H.
+  set (render := fun n => match lookup (print_templates T) n with
+                          | Some sq => Some (translate false f strict (print_templates T) c sq)
+                          | None => None
+                          end).
+  assert (Hrel : forall n tn mn, word n = true -> incf n = SOk tn mn ->
+            exists s, include_cb false (n, render n) [] = inl s /\ nobrace s = true /\ unshield s = tn).
+  { intros n tn mn Hn Hi. unfold incf in Hi. unfold include_cb, render. cbn [fst snd].
+    rewrite lookup_print_templates. destruct (lookup T n) as [t'|] eqn:L; cbn [option_map].
+    - assert (Hb' : strict = true -> out_bound c t').
+      { intros Hs. specialize (HTb Hs). clear - HTb L.
+        induction T as [|[k u] T IHT]; cbn in L; [discriminate|]. inversion HTb; subst.
+        destruct (str_eqb k n); [inversion L; subst; auto|auto]. }
+      destruct (IH t' tn mn (lookup_wf T n t' HT L) Hb' Hi) as (w & E).
+      rewrite E. exists (shield tn). cbn [sh]. repeat split; auto using shield_nobrace.
+      apply unshield_shield. eapply translate_nosent; eauto.
+    - inversion Hi; subst. exists (unknown_marker n). repeat split; auto using marker_nobrace.
+      apply unshield_id. apply marker_nosent. auto. }
+  destruct (include_leaves strict c incf render Hc Hrel (blocks c t) txt miss Hgood H)
+    as (L3 & E3 & W3 & N3 & F3 & P3).
+  cbn [translate].
+  assert (Em : (if strict then missing_vars false c (print t) else []) = []).
+  { destruct strict; [|reflexivity]. apply missing_none; auto. }
+  rewrite Em. rewrite passes_blocks by auto.
+  fold render. rewrite include_text_eq.
+  rewrite (scan_leaves_nil (m_include idz) act_inc (blocks c t) no_include (blocks_wf c t Hc Hwf) agrees_include).
+  rewrite E3.
+  destruct (tail_passes strict c L3 W3 F3) as [T1 T2]. rewrite T1.
+  cbn [negb]. rewrite andb_true_r. rewrite T2.
+  cbn [unsh]. rewrite P3. eexists. reflexivity.
+Qed.
+
+Lemma templates_wf_b : forall T, forallb (fun nt => well_formed (snd nt)) T = true -> templates_wf T.
+Proof. intros T H. apply Forall_forall. rewrite forallb_forall in H. exact H. Qed.
+
+Theorem render_eq_proof : forall T c t txt miss,
+  ctx_ok c = true ->
+  forallb (fun nt => well_formed (snd nt)) T = true -> well_formed t = true ->
+  render_spec false T c t = SOk txt miss ->
+  exists w, render_impl false (print_templates T) c (print t) = Ok txt w.
+Proof.
+  intros T c t txt miss Hc HT Hwf H. unfold render_spec in H. unfold render_impl.
+  assert (E : length (print_templates T) = length T) by (unfold print_templates; apply map_length).
+  rewrite E. eapply render_eq_fuel; eauto using templates_wf_b; discriminate.
+Qed.
 
 Theorem missing_plain_var_warned_proof : forall T c t x,
-  well_formed t = true -> In x (plain_vars t) -> lookup c x = None ->
+  well_formed t = true -> In x (plain_vars_out t) -> lookup c x = None ->
   (forall txt w, render_impl false T c (print t) = Ok txt w -> In (WMissing x) w) /\
   (exists y, render_impl true T c (print t) = Err (EMissing y) /\ lookup c y = None).
 Proof.
   intros T c t x Hwf Hin L.
-  assert (Hm : In x (missing_vars c (print t))).
-  { unfold missing_vars. apply filter_In. split.
-    - apply plain_vars_required; auto.
-    - rewrite bound_false; auto. }
+  pose proof (missing_vars_in c t x Hwf Hin L) as Hm.
   split.
   - intros txt w H. unfold render_impl in H. cbn [translate] in H.
-    destruct (pass_include _ _) as [s3|e]; [|discriminate].
-    destruct (pass_filtered c s3) as [s4|e]; [|discriminate].
+    destruct (include_text false _) as [s3|e]; [|discriminate].
+    destruct (pass_filtered false c s3) as [s4|e]; [|discriminate].
+    destruct (pass_simple false _ c _) as [s7|e]; [|discriminate].
     inversion H; subst. apply in_or_app. left. apply in_map. exact Hm.
   - unfold render_impl. cbn [translate].
-    destruct (missing_vars c (print t)) as [|y ys] eqn:E; [destruct Hm|].
+    destruct (missing_vars false c (print t)) as [|y ys] eqn:E; [destruct Hm|].
     exists y. split; auto.
-    assert (Hy : In y (missing_vars c (print t))) by (rewrite E; left; auto).
+    assert (Hy : In y (missing_vars false c (print t))) by (rewrite E; left; auto).
     unfold missing_vars in Hy. apply filter_In in Hy. destruct Hy as [_ Hy].
     unfold bound in Hy. destruct (lookup c y); [discriminate|reflexivity].
 Qed.
 
-Lemma text_leaf_passes : forall c m, nobrace m = true ->
-  pass_filtered c m = inl m /\ warn_filtered c m = [] /\ pass_default c m = m /\
-  pass_optional c m = m /\ pass_simple c m = m /\ warn_simple c m = [].
+Lemma text_leaf_passes : forall c raise m, nobrace m = true ->
+  pass_filtered false c m = inl m /\ warn_filtered c m = [] /\ pass_default false c m = m /\
+  pass_optional false c m = m /\ pass_simple false raise c m = inl m /\ warn_simple c m = [].
 Proof.
-  intros c m Hm.
+  intros c raise m Hm.
   assert (E : m = print_leaves [LText m]) by (rewrite print_leaves_cons1, print_leaves_nil, app_nil_r; reflexivity).
   assert (W : wf_leaves [LText m]) by (repeat constructor; auto).
   repeat split.
@@ -2369,7 +2832,10 @@ Proof.
     rewrite (scan_leaves_nil (m_default idz) act_def _ no_default W agrees_default).
     rewrite matches_leaf_toks. reflexivity.
   - rewrite E at 1. rewrite pass_optional_leaves by exact W. cbn [map opt_leaf]. rewrite <- E. reflexivity.
-  - rewrite E at 1. rewrite pass_simple_leaves by exact W. cbn [map simple_leaf]. rewrite <- E. reflexivity.
+  - unfold pass_simple. rewrite E at 1.
+    rewrite (scan_leaves_nil (m_simple idz) act_var _ no_simple W agrees_simple).
+    unfold leaf_toks. cbn [flat_map act_var print_leaf]. rewrite app_nil_r.
+    apply subst_err_lits_nil.
   - unfold warn_simple. rewrite E.
     rewrite (scan_leaves_nil (m_simple idz) act_var _ no_simple W agrees_simple).
     rewrite matches_leaf_toks. reflexivity.
@@ -2381,19 +2847,954 @@ Theorem unknown_include_marker_proof : forall strict T c n,
 Proof.
   intros strict T c n Hn L. unfold render_impl. cbn [translate].
   assert (Hwf : well_formed [NLeaf (LInc n)] = true) by (cbn; rewrite Hn; reflexivity).
-  assert (Hm : missing_vars c (print [NLeaf (LInc n)]) = []).
+  assert (Hm : missing_vars false c (print [NLeaf (LInc n)]) = []).
   { unfold missing_vars. rewrite required_vars_eq by auto. reflexivity. }
   rewrite Hm. assert (E0 : (if strict then @nil str else []) = []) by (destruct strict; reflexivity).
   rewrite E0.
   change [NLeaf (LInc n)] with (map NLeaf [LInc n]). rewrite print_map_leaf.
   assert (W : wf_leaves [LInc n]) by (repeat constructor; auto).
   rewrite pass_if_leaves, pass_each_leaves by auto.
-  rewrite pass_include_unfold.
+  unfold include_warnings. cbn [sh].
+  unfold resolve_includes at 2.
+  rewrite include_text_eq.
   rewrite (scan_leaves_nil (m_include idz) act_inc _ no_include W agrees_include).
-  cbn [flat_map leaf_toks act_inc app subst_err]. unfold include_cb at 1.
+  cbn [flat_map leaf_toks act_inc app subst_err map matches]. unfold include_cb at 1. cbn [fst snd].
   rewrite lookup_print_templates, L. cbn [option_map]. rewrite app_nil_r.
   fold (unknown_marker n).
-  destruct (text_leaf_passes c (unknown_marker n) (marker_nobrace n Hn))
+  destruct (text_leaf_passes c (strict && negb false) (unknown_marker n) (marker_nobrace n Hn))
     as (E1 & E2 & E3 & E4 & E5 & E6).
-  rewrite E1, E2, E3, E4, E5, E6. reflexivity.
+  rewrite E1, E2, E3, E4, E5, E6. cbn [unsh].
+  rewrite unshield_id by (apply marker_nosent; auto). reflexivity.
+Qed.
+
+
+(* ------------------------------------------------------------------ *)
+(* R. strict mode: the two theorems                                      *)
+
+Theorem strict_loop_vars_proof : forall T c t txt miss,
+  ctx_ok c = true ->
+  forallb (fun nt => well_formed (snd nt)) T = true -> well_formed t = true ->
+  Forall (fun nt => out_bound c (snd nt)) T -> out_bound c t ->
+  render_spec true T c t = SOk txt miss ->
+  exists w, render_impl true (print_templates T) c (print t) = Ok txt w.
+Proof.
+  intros T c t txt miss Hc HT Hwf HTb Hb H. unfold render_spec in H. unfold render_impl.
+  assert (E : length (print_templates T) = length T) by (unfold print_templates; apply map_length).
+  rewrite E. eapply render_eq_fuel; eauto using templates_wf_b.
+Qed.
+
+Lemma subst_err_some_err : forall {M} (f : M -> str -> str + error) ts m cv e,
+  In (TMatch m cv) ts -> f m cv = inr e -> exists e', subst_err f ts = inr e'.
+Proof.
+  intros M f ts m cv e Hin Hf. induction ts as [|t ts IH]; [destruct Hin|].
+  destruct Hin as [->|Hin].
+  - cbn [subst_err]. rewrite Hf. eauto.
+  - destruct (IH Hin) as (e' & E'). destruct t as [a|m' cv']; cbn [subst_err].
+    + rewrite E'. eauto.
+    + destruct (f m' cv'); [rewrite E'|]; eauto.
+Qed.
+
+Lemma in_leaf_toks : forall {M} (act : leaf -> option M) ls l m,
+  In l ls -> act l = Some m -> In (TMatch m (print_leaf l)) (flat_map (leaf_toks M act) ls).
+Proof.
+  intros. apply in_flat_map. exists l. split; auto. unfold leaf_toks. rewrite H0. left. reflexivity.
+Qed.
+
+Lemma include_struct : forall (render : str -> option outcome) L, wf_leaves L ->
+  (exists e, subst_err (fun n cv => include_cb false (n, render n) cv)
+                       (flat_map (leaf_toks _ act_inc) L) = inr e) \/
+  (exists L3, subst_err (fun n cv => include_cb false (n, render n) cv)
+                        (flat_map (leaf_toks _ act_inc) L) = inl (print_leaves L3) /\
+              wf_leaves L3 /\ forall l, In l L -> act_inc l = None -> In l L3).
+Proof.
+  intros render L H. induction H as [|l L Hl HL IH].
+  - right. exists []. repeat split; [constructor|]. intros l [].
+  - cbn [flat_map]. rewrite subst_err_app.
+    destruct IH as [(e & E)|(L3 & E & W3 & I3)].
+    + left. rewrite E. destruct (subst_err _ (leaf_toks str act_inc l)); eauto.
+    + rewrite E. unfold leaf_toks. destruct (act_inc l) as [n|] eqn:Ea.
+      * destruct l as [t|x| |x|x w|x]; try discriminate. cbn [act_inc] in Ea. inversion Ea; subst x.
+        cbn [subst_err]. unfold include_cb. cbn [fst snd].
+        destruct (render n) as [[tn wn|e]|].
+        -- right. exists (LText (shield tn) :: L3). cbn [sh]. rewrite app_nil_r, print_leaves_cons1.
+           repeat split; auto.
+           ++ constructor; auto. apply shield_nobrace.
+           ++ intros l [<-|Hin] Hn; [discriminate|]. right. auto.
+        -- left. eauto.
+        -- right. exists (LText (unknown_marker n) :: L3). rewrite app_nil_r, print_leaves_cons1.
+           repeat split; auto.
+           ++ constructor; auto. cbn [leaf_sc] in *. apply marker_nobrace. auto.
+           ++ intros l [<-|Hin] Hni; [discriminate|]. right. auto.
+      * right. exists (l :: L3). rewrite subst_err_lits_nil, print_leaves_cons1.
+        repeat split; auto.
+        -- constructor; auto.
+        -- intros l' [<-|Hin] Hn; [left; auto|right; auto].
+Qed.
+
+Definition filt_bad (c : ctx) (l : leaf) : bool :=
+  match l with
+  | LPipe x w => forallb is_word w && is_filter w &&
+                 match lookup c x with
+                 | Some v => match apply_filter w v with inr _ => true | inl _ => false end
+                 | None => false
+                 end
+  | _ => false
+  end.
+
+Lemma filtered_struct : forall c L, wf_leaves L ->
+  (exists e, pass_filtered false c (print_leaves L) = inr e) \/
+  pass_filtered false c (print_leaves L) = inl (print_leaves (map (filt_leaf c) L)).
+Proof.
+  intros c L H. destruct (existsb (filt_bad c) L) eqn:E.
+  - left. apply existsb_exists in E. destruct E as (l & Hl & Hb).
+    destruct l as [t|x| |x|x w|x]; try discriminate. cbn [filt_bad] in Hb.
+    apply andb_prop in Hb. destruct Hb as [Hb Hv]. apply andb_prop in Hb. destruct Hb as [Hw Hf].
+    destruct (lookup c x) as [v|] eqn:Lx; [|discriminate].
+    destruct (apply_filter w v) as [s|e] eqn:A; [discriminate|].
+    unfold pass_filtered.
+    rewrite (scan_leaves_nil (m_filtered idz) act_filt L no_filtered H agrees_filtered).
+    eapply subst_err_some_err.
+    + apply (in_leaf_toks act_filt L (LPipe x w) (x, w)); auto. cbn. rewrite Hw. reflexivity.
+    + cbv beta iota. rewrite Lx, Hf, A. reflexivity.
+  - right. apply pass_filtered_leaves; auto. apply Forall_forall. intros l Hl.
+    destruct l as [t|x| |x|x w|x]; try exact I. cbn [filt_ok]. intros v Lx Hf.
+    assert (Hb : filt_bad c (LPipe x w) = false).
+    { destruct (filt_bad c (LPipe x w)) eqn:B; auto.
+      assert (existsb (filt_bad c) L = true) by (apply existsb_exists; eauto). congruence. }
+    cbn [filt_bad] in Hb. rewrite (is_filter_word w Hf), Hf, Lx in Hb. cbn [andb] in Hb.
+    destruct (apply_filter w v); [eauto|discriminate].
+Qed.
+
+Lemma simple_raises : forall c ls x, wf_leaves ls -> In (LVar x) ls -> lookup c x = None ->
+  exists e, pass_simple false true c (print_leaves ls) = inr e.
+Proof.
+  intros c ls x H Hin L. unfold pass_simple.
+  rewrite (scan_leaves_nil (m_simple idz) act_var ls no_simple H agrees_simple).
+  eapply subst_err_some_err.
+  - apply (in_leaf_toks act_var ls (LVar x) x); auto.
+  - cbn. rewrite L. reflexivity.
+Qed.
+
+(* a plain variable that is rendered (after the blocks are expanded) and unbound is an error in
+   strict mode, whatever else the template contains *)
+Theorem strict_unbound_error_proof : forall Ts c t x,
+  ctx_ok c = true -> well_formed t = true ->
+  In (LVar x) (blocks c t) -> lookup c x = None ->
+  exists e, render_impl true Ts c (print t) = Err e.
+Proof.
+  intros Ts c t x Hc Hwf Hin L. unfold render_impl. cbn [translate].
+  destruct (missing_vars false c (print t)) as [|y ys]; [|eauto].
+  set (render := fun n => match lookup Ts n with
+                          | Some sq => Some (translate false (length Ts) true Ts c sq)
+                          | None => None
+                          end).
+  rewrite passes_blocks by auto. rewrite include_text_eq.
+  pose proof (blocks_wf c t Hc Hwf) as HB.
+  rewrite (scan_leaves_nil (m_include idz) act_inc (blocks c t) no_include HB agrees_include).
+  destruct (include_struct render (blocks c t) HB) as [(e & E)|(L3 & E & W3 & I3)].
+  - rewrite E. eauto.
+  - rewrite E. assert (H3 : In (LVar x) L3) by (apply I3; auto).
+    destruct (filtered_struct c L3 W3) as [(e & E4)|E4]; rewrite E4; [eauto|].
+    assert (W1 : wf_leaves (map (filt_leaf c) L3)) by (apply map_wf; auto using filt_leaf_sc).
+    rewrite pass_default_leaves by auto.
+    assert (W2 : wf_leaves (map (def_leaf c) (map (filt_leaf c) L3))) by (apply map_wf; auto using def_leaf_sc).
+    rewrite pass_optional_leaves by auto.
+    assert (W3' : wf_leaves (map (opt_leaf c) (map (def_leaf c) (map (filt_leaf c) L3))))
+      by (apply map_wf; auto using opt_leaf_sc).
+    cbn [negb andb].
+    destruct (simple_raises c _ x W3') as (e & E7); auto.
+    + apply (in_map (opt_leaf c) _ (LVar x)). apply (in_map (def_leaf c) _ (LVar x)).
+      apply (in_map (filt_leaf c) _ (LVar x)). exact H3.
+    + rewrite E7. eauto.
+Qed.
+
+(* ================================================================== *)
+(* S. the taint pipeline: scanning tainted text                         *)
+
+Lemma erase_app : forall a b, erase (a ++ b) = erase a ++ erase b.
+Proof. intros. unfold erase. apply map_app. Qed.
+Lemma erase_length : forall S, length (erase S) = length S.
+Proof. intros. unfold erase. apply map_length. Qed.
+Lemma erase_taint : forall o s, erase (taint o s) = s.
+Proof. intros. unfold erase, taint. rewrite map_map. cbn. apply map_id. Qed.
+Lemma codes_erase : forall S : tstr, codes idz (erase S) = codes tcode S.
+Proof. intros. unfold codes, erase. rewrite map_map. reflexivity. Qed.
+Lemma codes_tcode : forall S : tstr, codes tcode S = erase S.
+Proof. reflexivity. Qed.
+
+Lemma starts_erase : forall p S, starts idz p (erase S) = option_map erase (starts tcode p S).
+Proof.
+  induction p as [|c p IH]; intros S; [reflexivity|].
+  destruct S as [|a S]; [reflexivity|]. cbn [erase map starts]. unfold idz at 1.
+  destruct (tcode a =? c); [apply IH|reflexivity].
+Qed.
+
+Lemma span_erase : forall f S,
+  span idz f (erase S) = (erase (fst (span tcode f S)), erase (snd (span tcode f S))).
+Proof.
+  induction S as [|a S IH]; [reflexivity|]. cbn [erase map span]. unfold idz at 1.
+  destruct (f (tcode a)); [|reflexivity].
+  fold (erase S). rewrite IH. destruct (span tcode f S). reflexivity.
+Qed.
+
+Lemma nonempty_erase : forall S : tstr, nonempty (erase S) = nonempty S.
+Proof. destruct S; reflexivity. Qed.
+
+Ltac erase_step :=
+  repeat first
+    [ rewrite starts_erase
+    | rewrite span_erase
+    | rewrite nonempty_erase
+    | rewrite erase_length
+    | rewrite codes_erase ].
+
+Lemma m_simple_erase : forall S, m_simple idz (erase S) = m_simple tcode S.
+Proof.
+  intros. unfold m_simple. erase_step. destruct (starts tcode K_OPEN S) as [r|]; [|reflexivity].
+  cbn [option_map]. erase_step. destruct (span tcode is_word r) as [w r1]. cbn [fst snd].
+  erase_step. destruct (nonempty w); [|reflexivity]. erase_step.
+  destruct (starts tcode K_CLOSE r1); reflexivity.
+Qed.
+Lemma m_optional_erase : forall S, m_optional idz (erase S) = m_optional tcode S.
+Proof.
+  intros. unfold m_optional. erase_step. destruct (starts tcode K_OPT S) as [r|]; [|reflexivity].
+  cbn [option_map]. erase_step. destruct (span tcode is_word r) as [w r1]. cbn [fst snd].
+  erase_step. destruct (nonempty w); [|reflexivity]. erase_step.
+  destruct (starts tcode K_CLOSE r1); reflexivity.
+Qed.
+Lemma m_include_erase : forall S, m_include idz (erase S) = m_include tcode S.
+Proof.
+  intros. unfold m_include. erase_step. destruct (starts tcode K_INC S) as [r|]; [|reflexivity].
+  cbn [option_map]. erase_step. destruct (span tcode is_word r) as [w r1]. cbn [fst snd].
+  erase_step. destruct (nonempty w); [|reflexivity]. erase_step.
+  destruct (starts tcode K_CLOSE r1); reflexivity.
+Qed.
+Lemma m_filtered_erase : forall S, m_filtered idz (erase S) = m_filtered tcode S.
+Proof.
+  intros. unfold m_filtered. erase_step. destruct (starts tcode K_OPEN S) as [r|]; [|reflexivity].
+  cbn [option_map]. erase_step. destruct (span tcode is_word r) as [w r1]. cbn [fst snd].
+  erase_step. destruct (nonempty w); [|reflexivity]. erase_step.
+  destruct (starts tcode [124] r1) as [r2|]; [|reflexivity]. cbn [option_map]. erase_step.
+  destruct (span tcode is_word r2) as [f r3]. cbn [fst snd]. erase_step.
+  destruct (nonempty f); [|reflexivity]. erase_step.
+  destruct (starts tcode K_CLOSE r3); reflexivity.
+Qed.
+Lemma m_default_erase : forall S, m_default idz (erase S) = m_default tcode S.
+Proof.
+  intros. unfold m_default. erase_step. destruct (starts tcode K_OPEN S) as [r|]; [|reflexivity].
+  cbn [option_map]. erase_step. destruct (span tcode is_word r) as [w r1]. cbn [fst snd].
+  erase_step. destruct (nonempty w); [|reflexivity]. erase_step.
+  destruct (starts tcode [124] r1) as [r2|]; [|reflexivity]. cbn [option_map]. erase_step.
+  destruct (span tcode (fun c => negb (c =? RB)) r2) as [f r3]. cbn [fst snd]. erase_step.
+  destruct (nonempty f); [|reflexivity]. erase_step.
+  destruct (starts tcode K_CLOSE r3); reflexivity.
+Qed.
+Lemma m_lit_erase : forall p S, m_lit idz p (erase S) = m_lit tcode p S.
+Proof.
+  intros. unfold m_lit. destruct p; [reflexivity|]. erase_step.
+  destruct (starts tcode (z :: p) S); reflexivity.
+Qed.
+
+(* transport of a scan from the erased text to the tainted text *)
+Fixpoint retok {M} (ts : list (tok Z M)) (S : tstr) : list (ttok M) :=
+  match ts with
+  | [] => []
+  | TLit _ :: ts' => match S with
+                     | a :: S' => TLit a :: retok ts' S'
+                     | [] => []
+                     end
+  | TMatch m cov :: ts' => TMatch m (firstn (length cov) S) :: retok ts' (skipn (length cov) S)
+  end.
+
+Lemma skipn_min : forall {X} n (l : list X), skipn (Nat.min n (length l)) l = skipn n l.
+Proof.
+  intros X n l. destruct (Nat.le_ge_cases n (length l)).
+  - rewrite Nat.min_l by auto. reflexivity.
+  - rewrite Nat.min_r by auto. rewrite skipn_all. symmetry. apply skipn_all2. auto.
+Qed.
+Lemma firstn_min : forall {X} n (l : list X), firstn (Nat.min n (length l)) l = firstn n l.
+Proof.
+  intros X n l. destruct (Nat.le_ge_cases n (length l)).
+  - rewrite Nat.min_l by auto. reflexivity.
+  - rewrite Nat.min_r by auto. rewrite firstn_all. symmetry. apply firstn_all2. auto.
+Qed.
+
+Lemma scan_transport : forall {M} (mt : tstr -> option (M * nat)) (mz : str -> option (M * nat)),
+  (forall S, mz (erase S) = mt S) ->
+  (forall s m n, mz s = Some (m, n) -> (1 <= n)%nat) ->
+  forall S k, scan mt k S = retok (scan mz k (erase S)) (skipn k S).
+Proof.
+  intros M mt mz He Hn. induction S as [|a S IH]; intros k.
+  - destruct k; reflexivity.
+  - destruct k as [|k].
+    + cbn [erase map scan skipn]. fold (erase S). rewrite <- He. cbn [erase map]. fold (erase S).
+      destruct (mz (tcode a :: erase S)) as [[m n]|] eqn:E.
+      * pose proof (Hn _ _ _ E) as Hn1. cbn [retok].
+        assert (EL : length (tcode a :: erase S) = length (a :: S))
+          by (cbn [length]; rewrite erase_length; reflexivity).
+        rewrite firstn_length, EL, firstn_min, skipn_min. f_equal.
+        rewrite IH. destruct n; [lia|]. reflexivity.
+      * cbn [retok]. f_equal. rewrite IH. reflexivity.
+    + cbn [erase map scan skipn]. fold (erase S). apply IH.
+Qed.
+
+(* tainted leaves: arbitrary tainted brace-free text, or a template construct *)
+Inductive tleaf := TText (s : tstr) | TCon (l : leaf).
+Definition pl (tl : tleaf) : leaf := match tl with TText s => LText (erase s) | TCon l => l end.
+Definition tpr (tl : tleaf) : tstr :=
+  match tl with TText s => s | TCon l => taint FromTemplate (print_leaf l) end.
+Definition tprints (tls : list tleaf) : tstr := flat_map tpr tls.
+Definition tl_ok (tl : tleaf) : Prop :=
+  match tl with
+  | TText s => nobrace (erase s) = true
+  | TCon l => leaf_sc l = true /\ is_text l = false
+  end.
+(* the invariant of the partially rendered tainted text *)
+Definition Inv (X : tstr) : Prop := exists tls, X = tprints tls /\ Forall tl_ok tls.
+
+Lemma erase_tpr : forall tl, erase (tpr tl) = print_leaf (pl tl).
+Proof. intros [s|l]; cbn; auto using erase_taint. Qed.
+Lemma erase_tprints : forall tls, erase (tprints tls) = print_leaves (map pl tls).
+Proof.
+  induction tls as [|tl tls IH]; [reflexivity|].
+  unfold tprints. cbn [flat_map map]. rewrite erase_app, print_leaves_cons1, erase_tpr.
+  f_equal. exact IH.
+Qed.
+Lemma tl_ok_sc : forall tls, Forall tl_ok tls -> wf_leaves (map pl tls).
+Proof.
+  intros tls H. apply Forall_forall. intros l Hl. apply in_map_iff in Hl.
+  destruct Hl as (tl & <- & Htl). rewrite Forall_forall in H. specialize (H tl Htl).
+  destruct tl; cbn in *; tauto.
+Qed.
+Lemma tprints_app : forall a b, tprints (a ++ b) = tprints a ++ tprints b.
+Proof. intros. unfold tprints. apply flat_map_app. Qed.
+
+Definition ttoks {M} (act : leaf -> option M) (tl : tleaf) : list (ttok M) :=
+  match act (pl tl) with
+  | Some m => [TMatch m (tpr tl)]
+  | None => map TLit (tpr tl)
+  end.
+
+Lemma retok_lits : forall {M} (p : str) (ts : list (tok Z M)) (P S : tstr),
+  length p = length P -> retok (map TLit p ++ ts) (P ++ S) = map TLit P ++ retok ts S.
+Proof.
+  intros M p. induction p as [|z p IH]; intros ts P S H; destruct P as [|a P]; try discriminate.
+  - reflexivity.
+  - cbn [map app retok]. f_equal. apply IH. cbn in H. lia.
+Qed.
+
+Lemma retok_leaves : forall {M} (act : leaf -> option M) tls,
+  retok (flat_map (leaf_toks M act) (map pl tls)) (tprints tls) = flat_map (ttoks act) tls.
+Proof.
+  intros M act tls. induction tls as [|tl tls IH]; [reflexivity|].
+  cbn [map flat_map]. unfold tprints. cbn [flat_map]. fold (tprints tls).
+  unfold leaf_toks at 1. unfold ttoks at 1.
+  assert (EL : length (print_leaf (pl tl)) = length (tpr tl)).
+  { rewrite <- erase_tpr. apply erase_length. }
+  destruct (act (pl tl)) as [m|].
+  - cbn [app retok]. rewrite EL, firstn_app_exact.
+    rewrite skipn_app, Nat.sub_diag, skipn_all. cbn [app skipn]. rewrite IH. reflexivity.
+  - rewrite retok_lits by exact EL. rewrite IH. reflexivity.
+Qed.
+
+(* scanning tainted leaves with a matcher that only reads code points *)
+Lemma scan_tleaves : forall {M} (mt : tstr -> option (M * nat)) (mz : str -> option (M * nat)) act tls,
+  (forall S, mz (erase S) = mt S) ->
+  (forall s m n, mz s = Some (m, n) -> (1 <= n)%nat) ->
+  needs_open mz -> (forall l, leaf_sc l = true -> agrees M mz act l) ->
+  Forall tl_ok tls ->
+  scan mt O (tprints tls) = flat_map (ttoks act) tls.
+Proof.
+  intros M mt mz act tls He Hn Ho Hag Hok.
+  rewrite (scan_transport mt mz He Hn). cbn [skipn].
+  rewrite erase_tprints.
+  rewrite (scan_leaves_nil mz act (map pl tls) Ho (tl_ok_sc tls Hok) Hag).
+  apply retok_leaves.
+Qed.
+
+Lemma covers_template : forall p s, covers p (taint FromTemplate s) = [].
+Proof. intros. unfold covers, taint. induction s; cbn; auto. Qed.
+
+(* a re.sub over tainted leaves: nothing is logged, and the result is again tainted leaves *)
+Lemma tsub_tleaves : forall {M} (p : pass) (act : leaf -> option M)
+                            (f : M -> tstr -> (tstr + error) * list failure) tls,
+  (forall s, act (LText s) = None) ->
+  Forall tl_ok tls ->
+  (forall tl m, In tl tls -> act (pl tl) = Some m ->
+     snd (f m (tpr tl)) = [] /\ (forall Y, fst (f m (tpr tl)) = inl Y -> Inv Y)) ->
+  snd (tsub p f (flat_map (ttoks act) tls)) = [] /\
+  (forall Y, fst (tsub p f (flat_map (ttoks act) tls)) = inl Y -> Inv Y).
+Proof.
+  intros M p act f tls Htext Hok Hf. induction Hok as [|tl tls Htl Hok IH].
+  - cbn. split; auto. intros Y HY. inversion HY. exists []. split; [reflexivity|constructor].
+  - assert (Hf' : forall tl0 m, In tl0 tls -> act (pl tl0) = Some m ->
+              snd (f m (tpr tl0)) = [] /\ (forall Y, fst (f m (tpr tl0)) = inl Y -> Inv Y))
+      by (intros; apply Hf; auto; right; auto).
+    destruct (IH Hf') as [IH1 IH2]. cbn [flat_map].
+    destruct (act (pl tl)) as [m|] eqn:Ea.
+    + destruct tl as [s|l]; [cbn [pl] in Ea; rewrite Htext in Ea; discriminate|].
+      assert (Et : ttoks act (TCon l) = [TMatch m (tpr (TCon l))]) by (unfold ttoks; rewrite Ea; reflexivity).
+      rewrite Et. cbn [app tsub]. destruct (Hf (TCon l) m (or_introl eq_refl) Ea) as [F1 F2].
+      destruct (f m (tpr (TCon l))) as [r1 lg1] eqn:Ef. cbn [fst snd] in *. subst lg1.
+      cbn [tpr]. rewrite covers_template.
+      destruct r1 as [x|e]; [|cbn; split; auto; intros; discriminate].
+      destruct (tsub p f (flat_map (ttoks act) tls)) as [r lg] eqn:Ets. cbn [fst snd] in *. subst lg.
+      cbn. split; auto. intros Y HY. destruct r as [y|e]; [|discriminate]. inversion HY; subst.
+      destruct (F2 x eq_refl) as (t1 & -> & O1). destruct (IH2 y eq_refl) as (t2 & -> & O2).
+      exists (t1 ++ t2). split; [symmetry; apply tprints_app|apply Forall_app; auto].
+    + (* copied leaf *)
+      assert (G : forall P ts, snd (tsub p f ts) = [] ->
+                  snd (tsub p f (map TLit P ++ ts)) = [] /\
+                  fst (tsub p f (map TLit P ++ ts)) =
+                  match fst (tsub p f ts) with inl y => inl (P ++ y) | inr e => inr e end).
+      { clear. intros P ts H. induction P as [|a P IHP]; cbn [map app tsub].
+        - split; auto. destruct (fst (tsub p f ts)); reflexivity.
+        - destruct IHP as [I1 I2]. destruct (tsub p f (map TLit P ++ ts)) as [r lg].
+          cbn [fst snd] in *. subst lg. split; auto. rewrite I2.
+          destruct (fst (tsub p f ts)); reflexivity. }
+      assert (Et : ttoks act tl = map TLit (tpr tl)) by (unfold ttoks; rewrite Ea; reflexivity).
+      rewrite Et.
+      destruct (G (tpr tl) _ IH1) as [G1 G2]. split; auto.
+      intros Y HY. pose proof (eq_trans (eq_sym HY) G2) as K.
+      destruct (fst (tsub p f (flat_map (ttoks act) tls))) as [y|e] eqn:Ey; [|discriminate].
+      inversion K; subst. destruct (IH2 y eq_refl) as (t2 & -> & O2).
+      exists (tl :: t2). split; [reflexivity|constructor; auto].
+Qed.
+
+Lemma Inv_nil : Inv [].
+Proof. exists []. split; [reflexivity|constructor]. Qed.
+Lemma Inv_text : forall S, nobrace (erase S) = true -> Inv S.
+Proof.
+  intros S H. exists [TText S]. split; [unfold tprints; cbn; rewrite app_nil_r; reflexivity|].
+  constructor; [exact H|constructor].
+Qed.
+Lemma Inv_taint : forall o s, nobrace s = true -> Inv (taint o s).
+Proof. intros. apply Inv_text. rewrite erase_taint. auto. Qed.
+Lemma Inv_con : forall l, leaf_sc l = true -> is_text l = false -> Inv (tpr (TCon l)).
+Proof.
+  intros l H1 H2. exists [TCon l]. split; [unfold tprints; cbn; rewrite app_nil_r; reflexivity|].
+  constructor; [split; auto|constructor].
+Qed.
+Lemma Inv_app : forall a b, Inv a -> Inv b -> Inv (a ++ b).
+Proof.
+  intros a b (t1 & -> & O1) (t2 & -> & O2). exists (t1 ++ t2).
+  split; [symmetry; apply tprints_app|apply Forall_app; auto].
+Qed.
+
+Lemma toks_log_app : forall {M} p (a b : list (ttok M)),
+  toks_log p (a ++ b) = toks_log p a ++ toks_log p b.
+Proof. intros. unfold toks_log. apply flat_map_app. Qed.
+Lemma tsubst_app : forall {M} (f : M -> tstr -> tstr) (a b : list (ttok M)),
+  subst f (a ++ b) = subst f a ++ subst f b.
+Proof. intros. unfold subst. apply flat_map_app. Qed.
+Lemma toks_log_lits : forall {M} p (P : tstr), @toks_log M p (map TLit P) = [].
+Proof. intros. induction P; cbn; auto. Qed.
+Lemma tsubst_lits : forall {M} (f : M -> tstr -> tstr) (P : tstr), subst f (map TLit P) = P.
+Proof. intros. unfold subst. induction P as [|a P IH]; cbn; auto. f_equal. exact IH. Qed.
+
+(* str.replace over tainted leaves *)
+Lemma subst_tleaves : forall {M} (p : pass) (act : leaf -> option M) (new : tstr) tls,
+  (forall s, act (LText s) = None) -> Forall tl_ok tls -> nobrace (erase new) = true ->
+  toks_log p (flat_map (ttoks act) tls) = [] /\
+  Inv (subst (fun _ _ => new) (flat_map (ttoks act) tls)).
+Proof.
+  intros M p act new tls Htext Hok Hnew. induction Hok as [|tl tls Htl Hok IH].
+  - split; [reflexivity|apply Inv_nil].
+  - destruct IH as [IH1 IH2]. cbn [flat_map]. rewrite toks_log_app, tsubst_app, IH1, app_nil_r.
+    unfold ttoks. destruct (act (pl tl)) as [m|] eqn:Ea.
+    + destruct tl as [s|l]; [cbn [pl] in Ea; rewrite Htext in Ea; discriminate|].
+      cbn [tpr]. unfold toks_log, subst. cbn [flat_map]. rewrite covers_template, !app_nil_r.
+      split; [reflexivity|]. apply Inv_app; auto using Inv_text.
+    + rewrite toks_log_lits, tsubst_lits. split; [reflexivity|].
+      apply Inv_app; auto. exists [tl]. split; [unfold tprints; cbn; rewrite app_nil_r; reflexivity|].
+      constructor; auto.
+Qed.
+
+Ltac n_ge_1 :=
+  let s := fresh in let m := fresh in let n := fresh in let H := fresh in
+  intros s m n H;
+  repeat match type of H with
+         | match ?x with _ => _ end = _ => destruct x eqn:?; try discriminate
+         | (let (_, _) := ?x in _) = _ => destruct x eqn:?
+         | (if ?x then _ else _) = _ => destruct x eqn:?; try discriminate
+         end; inversion H; lia.
+
+Lemma n1_simple : forall s m n, m_simple idz s = Some (m, n) -> (1 <= n)%nat.
+Proof. unfold m_simple. n_ge_1. Qed.
+Lemma n1_optional : forall s m n, m_optional idz s = Some (m, n) -> (1 <= n)%nat.
+Proof. unfold m_optional. n_ge_1. Qed.
+Lemma n1_include : forall s m n, m_include idz s = Some (m, n) -> (1 <= n)%nat.
+Proof. unfold m_include. n_ge_1. Qed.
+Lemma n1_filtered : forall s m n, m_filtered idz s = Some (m, n) -> (1 <= n)%nat.
+Proof. unfold m_filtered. n_ge_1. Qed.
+Lemma n1_default : forall s m n, m_default idz s = Some (m, n) -> (1 <= n)%nat.
+Proof. unfold m_default. n_ge_1. Qed.
+Lemma n1_lit : forall p s m n, m_lit idz p s = Some (m, n) -> (1 <= n)%nat.
+Proof. intros p. unfold m_lit. destruct p; [discriminate|]. n_ge_1. Qed.
+
+(* ------------------------------------------------------------------ *)
+(* T. every pass of the taint pipeline logs nothing and preserves Inv     *)
+
+Definition clean_pass (r : (tstr + error) * list failure) : Prop :=
+  snd r = [] /\ (forall Y, fst r = inl Y -> Inv Y).
+
+Lemma Inv_tl : forall tls tl, Forall tl_ok tls -> In tl tls -> Inv (tpr tl).
+Proof.
+  intros tls tl H Hin. rewrite Forall_forall in H. specialize (H tl Hin).
+  exists [tl]. split; [unfold tprints; cbn; rewrite app_nil_r; reflexivity|]. constructor; auto.
+Qed.
+
+Lemma pass_filtered_t_clean : forall c S, Inv S -> clean_pass (pass_filtered_t false c S).
+Proof.
+  intros c S (tls & -> & Hok). unfold pass_filtered_t, clean_pass.
+  rewrite (scan_tleaves (m_filtered tcode) (m_filtered idz) act_filt tls
+             m_filtered_erase n1_filtered no_filtered agrees_filtered Hok).
+  apply tsub_tleaves; auto.
+  intros tl [x f] Hin Ha.
+  destruct (lookup c x) as [v|].
+  - destruct (is_filter f).
+    + destruct (apply_filter f v); cbn; split; auto; intros Y HY; inversion HY; subst.
+      apply Inv_taint. cbn [sh]. apply shield_nobrace.
+    + cbn. split; auto. intros Y HY. inversion HY; subst. apply Inv_taint. apply shield_nobrace.
+  - cbn. split; auto. intros Y HY. inversion HY; subst. eapply Inv_tl; eauto.
+Qed.
+
+Lemma pass_optional_t_clean : forall c S, Inv S -> clean_pass (pass_optional_t false c S).
+Proof.
+  intros c S (tls & -> & Hok). unfold pass_optional_t, clean_pass.
+  rewrite (scan_tleaves (m_optional tcode) (m_optional idz) act_opt tls
+             m_optional_erase n1_optional no_optional agrees_optional Hok).
+  apply tsub_tleaves; auto.
+  intros tl x Hin Ha. unfold pure. cbn. split; auto. intros Y HY. inversion HY; subst.
+  destruct (lookup c x); [apply Inv_taint, shield_nobrace|apply Inv_nil].
+Qed.
+
+Lemma pass_simple_t_clean : forall raise c S, Inv S -> clean_pass (pass_simple_t false raise c S).
+Proof.
+  intros raise c S (tls & -> & Hok). unfold pass_simple_t, clean_pass.
+  rewrite (scan_tleaves (m_simple tcode) (m_simple idz) act_var tls
+             m_simple_erase n1_simple no_simple agrees_simple Hok).
+  apply tsub_tleaves; auto.
+  intros tl x Hin Ha. destruct (lookup c x).
+  - cbn. split; auto. intros Y HY. inversion HY; subst. apply Inv_taint, shield_nobrace.
+  - destruct raise; cbn; split; auto; intros Y HY; inversion HY; subst. eapply Inv_tl; eauto.
+Qed.
+
+Lemma replace_lit_clean : forall (p : pass) act k new tls,
+  (forall s, act (LText s) = None) ->
+  needs_open (m_lit idz k) -> (forall l, leaf_sc l = true -> agrees _ (m_lit idz k) act l) ->
+  Forall tl_ok tls -> nobrace (erase new) = true ->
+  toks_log p (scan (m_lit tcode k) O (tprints tls)) = [] /\
+  Inv (subst (fun _ _ => new) (scan (m_lit tcode k) O (tprints tls))).
+Proof.
+  intros p act k new tls Htext Ho Hag Hok Hnew.
+  rewrite (scan_tleaves (m_lit tcode k) (m_lit idz k) act tls (m_lit_erase k) (n1_lit k) Ho Hag Hok).
+  apply subst_tleaves; auto.
+Qed.
+
+Lemma act_lit_text : forall x w s, act_lit x w (LText s) = None.
+Proof. reflexivity. Qed.
+Lemma act_key_text : forall k s, act_key k (LText s) = None.
+Proof. reflexivity. Qed.
+
+Lemma tmatches_app : forall {M} (a b : list (ttok M)), matches (a ++ b) = matches a ++ matches b.
+Proof. intros. unfold matches. apply flat_map_app. Qed.
+Lemma tmatches_lits : forall {M} (P : tstr), @matches tchar M (map TLit P) = [].
+Proof. intros. unfold matches. induction P; cbn; auto. Qed.
+
+Lemma pass_default_t_clean : forall c S, Inv S ->
+  snd (pass_default_t false c S) = [] /\ Inv (fst (pass_default_t false c S)).
+Proof.
+  intros c S (tls & -> & Hok). unfold pass_default_t.
+  rewrite (scan_tleaves (m_default tcode) (m_default idz) act_def tls
+             m_default_erase n1_default no_default agrees_default Hok).
+  (* the matches: one per pipe leaf, covering exactly that leaf *)
+  assert (HM : Forall (fun mc : (str * str) * tstr =>
+                         erase (snd mc) = print_leaf (LPipe (fst (fst mc)) (snd (fst mc))) /\
+                         leaf_sc (LPipe (fst (fst mc)) (snd (fst mc))) = true)
+                      (matches (flat_map (ttoks act_def) tls))).
+  { clear - Hok. induction Hok as [|tl tls Htl Hok IH]; [constructor|].
+    cbn [flat_map]. rewrite tmatches_app. apply Forall_app. split; auto.
+    unfold ttoks. destruct (act_def (pl tl)) as [[x w]|] eqn:Ea; [|rewrite tmatches_lits; constructor].
+    destruct tl as [s|l]; [discriminate|]. destruct l; try discriminate. cbn [pl act_def] in Ea.
+    inversion Ea; subst. unfold matches. cbn [flat_map app]. constructor; [|constructor].
+    cbn [fst snd tpr]. destruct Htl. split; auto using erase_taint. }
+  assert (HL : toks_log PDefault (flat_map (ttoks act_def) tls) = []).
+  { clear - Hok. induction Hok as [|tl tls Htl Hok IH]; [reflexivity|].
+    cbn [flat_map]. rewrite toks_log_app, IH, app_nil_r. unfold ttoks.
+    destruct (act_def (pl tl)) eqn:Ea; [|apply toks_log_lits].
+    destruct tl as [s|l]; [discriminate|]. unfold toks_log. cbn [flat_map tpr].
+    rewrite covers_template. reflexivity. }
+  rewrite HL.
+  assert (G : forall ms res, Forall (fun mc : (str * str) * tstr =>
+                         erase (snd mc) = print_leaf (LPipe (fst (fst mc)) (snd (fst mc))) /\
+                         leaf_sc (LPipe (fst (fst mc)) (snd (fst mc))) = true) ms ->
+              Inv res ->
+              let r := fold_left (fun (acc : tstr * list failure) (mc : (str * str) * tstr) =>
+                         let '(res, lg) := acc in
+                         let '((x, d), g0) := mc in
+                         if is_filter d then (res, lg)
+                         else
+                           let new := match lookup c x with
+                                      | Some v => taint FromDefault (sh false (str_value v))
+                                      | None => taint FromDefault (sh false d)
+                                      end in
+                           let '(res', lg') := replace_default_t res (erase g0) new in
+                           (res', lg ++ lg')) ms (res, []) in
+              snd r = [] /\ Inv (fst r)).
+  { clear. induction ms as [|[[x d] g0] ms IH]; intros res HF HI; [cbn; auto|].
+    inversion HF as [|? ? [Hg Hsc] HF']; subst. cbn [fst snd] in *. cbn [fold_left].
+    destruct (is_filter d); [apply IH; auto|].
+    destruct HI as (tls & -> & Hok). unfold replace_default_t. rewrite Hg.
+    destruct (pipe_wf x d Hsc) as (Hx & _).
+    set (new := match lookup c x with
+                | Some v => taint FromDefault (sh false (str_value v))
+                | None => taint FromDefault (sh false d)
+                end).
+    assert (Hnew : nobrace (erase new) = true).
+    { unfold new. destruct (lookup c x); rewrite erase_taint; apply shield_nobrace. }
+    destruct (replace_lit_clean PDefault (act_lit x d) (print_leaf (LPipe x d)) new tls
+                (act_lit_text x d) (no_lit x d Hx) (fun l => agrees_lit x d l Hsc) Hok Hnew) as [L1 L2].
+    rewrite L1. cbn [app]. apply IH; auto. }
+  apply G; auto. exists tls. auto.
+Qed.
+
+Lemma loop_part_t_clean : forall lc body, lc_ok lc -> Inv body ->
+  snd (loop_part_t false body lc) = [] /\ Inv (fst (loop_part_t false body lc)).
+Proof.
+  unfold loop_part_t.
+  assert (G : forall lc part, lc_ok lc -> Inv part ->
+    let r := fold_left (fun (acc : tstr * list failure) (kv : str * str) =>
+               let '(part, lg) := acc in
+               let '(part', lg') := replace_all_t part (key_pattern (fst kv))
+                                      (taint FromLoopItem (sh false (snd kv))) in
+               (part', lg ++ lg')) lc (part, []) in
+    snd r = [] /\ Inv (fst r)).
+  { induction lc as [|[k v] lc IH]; intros part Hlc HI; [cbn; auto|].
+    inversion Hlc as [|? ? Hk Hlc']; subst. cbn [fst snd] in *. cbn [fold_left fst snd].
+    destruct HI as (tls & -> & Hok). unfold replace_all_t.
+    assert (Hnew : nobrace (erase (taint FromLoopItem (sh false v))) = true)
+      by (rewrite erase_taint; apply shield_nobrace).
+    destruct (replace_lit_clean PLoopKeys (act_key k) (key_pattern k) _ tls
+                (act_key_text k) (no_lit_key k Hk) (fun l => agrees_key k l Hk) Hok Hnew) as [L1 L2].
+    rewrite L1. cbn [app]. apply IH; auto. }
+  intros. apply G; auto.
+Qed.
+
+Lemma loop_items_t_clean : forall body n items i, items_ok n i items = true -> Inv body ->
+  snd (loop_items_t false body n i items) = [] /\ Inv (fst (loop_items_t false body n i items)).
+Proof.
+  intros body n items. induction items as [|it rest IH]; intros i Hf HI.
+  - cbn. split; auto using Inv_nil.
+  - cbn [items_ok] in Hf. apply andb_prop in Hf. destruct Hf as [H1 H2].
+    cbn [loop_items_t].
+    destruct (loop_part_t_clean (loop_context i n it) body (item_free_ok i n it H1) HI) as [P1 P2].
+    destruct (loop_part_t false body (loop_context i n it)) as [p1 l1]. cbn [fst snd] in *. subst l1.
+    destruct (IH (S i) H2 HI) as [Q1 Q2].
+    destruct (loop_items_t false body n (S i) rest) as [p2 l2]. cbn [fst snd] in *. subst l2.
+    split; auto using Inv_app.
+Qed.
+
+(* uniformly tainted text: the scanners commute with [taint o] *)
+Lemma starts_taint : forall o p s, starts tcode p (taint o s) = option_map (taint o) (starts idz p s).
+Proof.
+  induction p as [|c p IH]; intros s; [reflexivity|].
+  destruct s as [|a s]; [reflexivity|]. cbn [taint map starts].
+  change (tcode (a, o)) with a. change (idz a) with a.
+  destruct (a =? c); [apply IH|reflexivity].
+Qed.
+Lemma span_taint : forall o f s,
+  span tcode f (taint o s) = (taint o (fst (span idz f s)), taint o (snd (span idz f s))).
+Proof.
+  induction s as [|a s IH]; [reflexivity|]. cbn [taint map span].
+  change (tcode (a, o)) with a. change (idz a) with a.
+  destruct (f a); [|reflexivity]. fold (taint o s). rewrite IH. destruct (span idz f s). reflexivity.
+Qed.
+Lemma find_sub_taint : forall o p s,
+  find_sub tcode p (taint o s) =
+  option_map (fun ab => (taint o (fst ab), taint o (snd ab))) (find_sub idz p s).
+Proof.
+  induction s as [|a s IH].
+  - cbn [taint map find_sub]. pose proof (starts_taint o p []) as E. cbn [taint map] in E. rewrite E.
+    destruct (starts idz p []); reflexivity.
+  - cbn [taint map find_sub]. pose proof (starts_taint o p (a :: s)) as E. cbn [taint map] in E.
+    rewrite E. destruct (starts idz p (a :: s)); [reflexivity|]. cbn [option_map].
+    fold (taint o s). rewrite IH. destruct (find_sub idz p s) as [[b r]|]; reflexivity.
+Qed.
+Lemma taint_length : forall o s, length (taint o s) = length s.
+Proof. intros. unfold taint. apply map_length. Qed.
+Lemma taint_app : forall o a b, taint o (a ++ b) = taint o a ++ taint o b.
+Proof. intros. unfold taint. apply map_app. Qed.
+Lemma nonempty_taint : forall o s, nonempty (taint o s) = nonempty s.
+Proof. destruct s; reflexivity. Qed.
+Lemma codes_taint : forall o s, codes tcode (taint o s) = s.
+Proof. intros. apply erase_taint. Qed.
+
+Ltac taint_step :=
+  repeat first
+    [ rewrite starts_taint
+    | rewrite span_taint
+    | rewrite find_sub_taint
+    | rewrite nonempty_taint
+    | rewrite taint_length
+    | rewrite codes_taint ].
+
+Lemma m_if_taint : forall o s,
+  m_if tcode (taint o s) =
+  option_map (fun mn => ((fst (fst (fst mn)), taint o (snd (fst (fst mn))), taint o (snd (fst mn))), snd mn))
+             (m_if idz s).
+Proof.
+  intros. unfold m_if. taint_step. destruct (starts idz K_IF s) as [r|]; [|reflexivity].
+  cbn [option_map]. taint_step. destruct (span idz is_space r) as [ws r1]. cbn [fst snd].
+  taint_step. destruct (nonempty ws); [|reflexivity]. taint_step.
+  destruct (span idz is_word r1) as [w r2]. cbn [fst snd]. taint_step.
+  destruct (nonempty w); [|reflexivity]. taint_step.
+  destruct (starts idz K_CLOSE r2) as [r3|]; [|reflexivity]. cbn [option_map]. taint_step.
+  destruct (find_sub idz K_ENDIF r3) as [[pre post]|]; [|reflexivity]. cbn [option_map fst snd].
+  taint_step. rewrite codes_idz.
+  destruct (find_sub idz K_ELSE pre) as [[a b]|]; reflexivity.
+Qed.
+
+Lemma m_each_taint : forall o s,
+  m_each tcode (taint o s) =
+  option_map (fun mn => ((fst (fst mn), taint o (snd (fst mn))), snd mn)) (m_each idz s).
+Proof.
+  intros. unfold m_each. taint_step. destruct (starts idz K_EACH s) as [r|]; [|reflexivity].
+  cbn [option_map]. taint_step. destruct (span idz is_space r) as [ws r1]. cbn [fst snd].
+  taint_step. destruct (nonempty ws); [|reflexivity]. taint_step.
+  destruct (span idz is_word r1) as [w r2]. cbn [fst snd]. taint_step.
+  destruct (nonempty w); [|reflexivity]. taint_step.
+  destruct (starts idz K_CLOSE r2) as [r3|]; [|reflexivity]. cbn [option_map]. taint_step.
+  destruct (find_sub idz K_ENDEACH r3) as [[body post]|]; [|reflexivity]. cbn [option_map fst snd].
+  taint_step. rewrite codes_idz. reflexivity.
+Qed.
+
+Definition taint_tok {M M'} (o : origin) (h : M -> M') (t : tok Z M) : ttok M' :=
+  match t with TLit z => TLit (z, o) | TMatch m cov => TMatch (h m) (taint o cov) end.
+
+Lemma scan_taint : forall {M M'} (mt : tstr -> option (M' * nat)) (mz : str -> option (M * nat))
+                          (o : origin) (h : M -> M'),
+  (forall s, mt (taint o s) = option_map (fun mn => (h (fst mn), snd mn)) (mz s)) ->
+  forall s k, scan mt k (taint o s) = map (taint_tok o h) (scan mz k s).
+Proof.
+  intros M M' mt mz o h He. induction s as [|a s IH]; intros k; [destruct k; reflexivity|].
+  destruct k as [|k]; cbn [taint map scan]; fold (taint o s).
+  - pose proof (He (a :: s)) as E. cbn [taint map] in E. fold (taint o s) in E. rewrite E.
+    destruct (mz (a :: s)) as [[m n]|]; cbn [option_map fst snd map taint_tok].
+    + f_equal; [|apply IH]. f_equal. change ((a, o) :: taint o s) with (taint o (a :: s)).
+      unfold taint. rewrite firstn_map. reflexivity.
+    + f_equal. apply IH.
+  - apply IH.
+Qed.
+
+Lemma tsub_app : forall {M} p (f : M -> tstr -> (tstr + error) * list failure) (a b : list (ttok M)),
+  tsub p f (a ++ b) =
+  match tsub p f a with
+  | (inr e, l1) => (inr e, l1)
+  | (inl x, l1) => match tsub p f b with
+                   | (inl y, l2) => (inl (x ++ y), l1 ++ l2)
+                   | (inr e, l2) => (inr e, l1 ++ l2)
+                   end
+  end.
+Proof.
+  intros M p f a b. induction a as [|t a IH]; cbn [app tsub].
+  - destruct (tsub p f b) as [[y|e] l2]; reflexivity.
+  - destruct t as [z|m cv].
+    + rewrite IH. destruct (tsub p f a) as [[x|e] l1]; [|reflexivity].
+      destruct (tsub p f b) as [[y|e] l2]; reflexivity.
+    + destruct (f m cv) as [[x1|e1] lg1]; [|reflexivity]. rewrite IH.
+      destruct (tsub p f a) as [[x|e] l1]; [|reflexivity].
+      destruct (tsub p f b) as [[y|e] l2]; rewrite <- ?app_assoc; reflexivity.
+Qed.
+
+Lemma clean_app : forall {M} p (f : M -> tstr -> (tstr + error) * list failure) (a b : list (ttok M)),
+  clean_pass (tsub p f a) -> clean_pass (tsub p f b) -> clean_pass (tsub p f (a ++ b)).
+Proof.
+  intros M p f a b [A1 A2] [B1 B2]. rewrite tsub_app.
+  destruct (tsub p f a) as [[x|e] l1]; cbn [fst snd] in *; subst.
+  - destruct (tsub p f b) as [[y|e] l2]; cbn [fst snd] in *; subst; (split; [reflexivity|]).
+    + intros Y HY. inversion HY; subst. apply Inv_app; auto.
+    + intros; discriminate.
+  - split; [reflexivity|]. intros; discriminate.
+Qed.
+
+Lemma clean_lits : forall {M} p (f : M -> tstr -> (tstr + error) * list failure) (P : tstr),
+  Inv P -> clean_pass (tsub p f (map TLit P)).
+Proof.
+  intros M p f P HI.
+  assert (E : tsub p f (map TLit P) = (inl P, [])).
+  { clear. induction P as [|a P IH]; cbn [map tsub]; [reflexivity|]. rewrite IH. reflexivity. }
+  rewrite E. split; auto. intros Y HY. inversion HY; subst. exact HI.
+Qed.
+
+Definition inj_leaf (l : leaf) : tleaf :=
+  match l with LText s => TText (taint FromTemplate s) | _ => TCon l end.
+
+Lemma Inv_taint_leaves : forall ls, wf_leaves ls -> Inv (taint FromTemplate (print_leaves ls)).
+Proof.
+  intros ls H. exists (map inj_leaf ls). split.
+  - clear H. induction ls as [|l ls IH]; [reflexivity|].
+    rewrite print_leaves_cons1, taint_app, IH. unfold tprints. cbn [map flat_map]. f_equal.
+    destruct l; reflexivity.
+  - apply Forall_forall. intros tl Hin. apply in_map_iff in Hin. destruct Hin as (l & <- & Hl).
+    unfold wf_leaves in H. rewrite Forall_forall in H. specialize (H l Hl).
+    destruct l; cbn in *; auto. rewrite erase_taint. exact H.
+Qed.
+
+Lemma tsub_uniform : forall {M M'} p (gz : M -> str -> str) (gt : M' -> tstr -> tstr) (h : M -> M')
+                            (ts : list (tok Z M)),
+  (forall m cov, gt (h m) (taint FromTemplate cov) = taint FromTemplate (gz m cov)) ->
+  tsub p (pure gt) (map (taint_tok FromTemplate h) ts) = (inl (taint FromTemplate (subst gz ts)), []).
+Proof.
+  intros M M' p gz gt h ts Hg. induction ts as [|[z|m cov] ts IH]; cbn [map taint_tok tsub].
+  - reflexivity.
+  - rewrite IH. reflexivity.
+  - unfold pure at 1. rewrite IH, covers_template, Hg. cbn [app].
+    unfold subst. cbn [flat_map]. rewrite taint_app. reflexivity.
+Qed.
+
+Lemma pass_if_t_uniform : forall c s,
+  pass_if_t c (taint FromTemplate s) = (inl (taint FromTemplate (pass_if c s)), []).
+Proof.
+  intros c s. unfold pass_if_t, pass_if.
+  rewrite (scan_taint (m_if tcode) (m_if idz) FromTemplate
+             (fun m : str * str * str => (fst (fst m), taint FromTemplate (snd (fst m)), taint FromTemplate (snd m)))).
+  - apply tsub_uniform. intros [[x a] b] cov. cbn [fst snd].
+    destruct (lookup c x) as [v|]; [destruct (truthy v)|]; reflexivity.
+  - intros s0. rewrite m_if_taint. destruct (m_if idz s0) as [[[[x a] b] n]|]; reflexivity.
+Qed.
+
+Lemma map_taint_lits : forall {M M'} o (h : M -> M') (P : str),
+  map (taint_tok o h) (map TLit P) = map TLit (taint o P).
+Proof. intros. induction P as [|a P IH]; cbn; auto. f_equal. exact IH. Qed.
+
+Lemma pass_each_t_clean : forall c t, ctx_ok c = true -> well_formed t = true -> if_free t ->
+  clean_pass (pass_each_t false c (taint FromTemplate (print t))).
+Proof.
+  intros c t Hc Hwf Hni. unfold pass_each_t.
+  rewrite (scan_taint (m_each tcode) (m_each idz) FromTemplate
+             (fun m : str * str => (fst m, taint FromTemplate (snd m)))).
+  2:{ intros s0. rewrite m_each_taint. destruct (m_each idz s0) as [[[x b] n]|]; reflexivity. }
+  pose proof (scan_each_all t [] Hwf) as E. rewrite app_nil_r in E. cbn [scan] in E.
+  rewrite app_nil_r in E. rewrite E. clear E.
+  induction t as [|n t IH]; [cbn; split; auto; intros Y HY; inversion HY; apply Inv_nil|].
+  cbn [well_formed forallb] in Hwf. apply andb_prop in Hwf. destruct Hwf as [Hn Ht].
+  inversion Hni as [|? ? Hn' Hni']; subst.
+  cbn [flat_map]. rewrite map_app. apply clean_app; [|apply IH; auto].
+  destruct n as [l|ws x a b|ws x body]; cbn [each_toks]; [|destruct Hn'|].
+  - cbn [node_wf] in Hn. apply wf_sc in Hn.
+    rewrite map_taint_lits. cbn [print_node]. apply clean_lits.
+    pose proof (Inv_taint_leaves [l]) as I1. rewrite print_leaves_cons1, print_leaves_nil, app_nil_r in I1.
+    apply I1. repeat constructor; auto.
+  - destruct (node_wf_each ws x body Hn) as (Hws & Hx & Hbody).
+    cbn [map taint_tok tsub fst snd]. rewrite covers_template. cbn [app].
+    destruct (lookup c x) as [[s0|z|b0|items]|] eqn:L;
+      try (cbn; split; auto; intros Y HY; inversion HY; apply Inv_nil).
+    pose proof (lookup_items_ok c x items Hc L) as Hit.
+    destruct (loop_items_t_clean (taint FromTemplate (print_leaves body)) (length items) items O Hit
+                (Inv_taint_leaves body Hbody)) as [Q1 Q2].
+    destruct (loop_items_t false (taint FromTemplate (print_leaves body)) (length items) O items) as [r lg].
+    cbn [fst snd] in *. subst lg. cbn. split; auto. intros Y HY. inversion HY; subst.
+    rewrite app_nil_r. exact Q2.
+Qed.
+
+Definition include_cb_t (m : str * option (toutcome * list failure)) (_ : tstr)
+  : (tstr + error) * list failure :=
+  match snd m with
+  | Some (OkT t _, lg) => (inl (tsh false (through_include t)), lg)
+  | Some (ErrT e, lg) => (inr e, lg)
+  | None => (inl (taint FromTemplate (S_UNKNOWN ++ fst m ++ [93])), [])
+  end.
+
+Lemma include_text_t_eq : forall (render : str -> option (toutcome * list failure)) S,
+  include_text_t false (resolve_includes_t render S) =
+  tsub PInclude (fun n cv => include_cb_t (n, render n) cv) (scan (m_include tcode) O S).
+Proof.
+  intros render S. unfold include_text_t, resolve_includes_t.
+  induction (scan (m_include tcode) O S) as [|[a|n cv] ts IH]; cbn [map tsub].
+  - reflexivity.
+  - rewrite IH. reflexivity.
+  - unfold include_cb_t at 1. cbn [fst snd].
+    destruct (render n) as [[[t w|e] lg]|]; try reflexivity; rewrite IH; reflexivity.
+Qed.
+
+Lemma erase_tsh : forall X, erase (tsh false X) = shield (erase X).
+Proof. intros. unfold tsh, erase, shield. rewrite !map_map. reflexivity. Qed.
+
+Lemma include_text_t_clean : forall (render : str -> option (toutcome * list failure)) S,
+  (forall n, match render n with Some (_, lg) => lg = [] | None => True end) ->
+  Inv S -> clean_pass (include_text_t false (resolve_includes_t render S)).
+Proof.
+  intros render S Hr (tls & -> & Hok). rewrite include_text_t_eq. unfold clean_pass.
+  rewrite (scan_tleaves (m_include tcode) (m_include idz) act_inc tls
+             m_include_erase n1_include no_include agrees_include Hok).
+  apply tsub_tleaves; auto.
+  intros tl n Hin Ha. unfold include_cb_t. cbn [fst snd]. specialize (Hr n).
+  destruct (render n) as [[[t w|e] lg]|].
+  - subst lg. cbn [fst snd]. split; auto. intros Y HY.
+    assert (EY : Y = tsh false (through_include t)) by congruence. subst Y. apply Inv_text.
+    rewrite erase_tsh. apply shield_nobrace.
+  - subst lg. cbn [fst snd]. split; auto. intros; discriminate.
+  - cbn [fst snd]. split; auto. intros Y HY.
+    assert (EY : Y = taint FromTemplate (S_UNKNOWN ++ n ++ [93])) by congruence. subst Y.
+    apply Inv_taint.
+    destruct tl as [s|l]; [discriminate|]. destruct l; try discriminate. cbn [pl act_inc] in Ha.
+    inversion Ha; subst. rewrite Forall_forall in Hok. specialize (Hok _ Hin). destruct Hok as [Hsc _].
+    cbn [leaf_sc] in Hsc. apply (marker_nobrace n Hsc).
+Qed.
+
+Lemma text_of_Inv : forall r, (forall Y, r = inl Y -> Inv Y) -> Inv (text_of r).
+Proof. intros [Y|e] H; cbn; auto using Inv_nil. Qed.
+
+(* the universal opacity theorem on the taint model: nothing is ever logged *)
+Theorem taint_log_empty : forall T c,
+  ctx_ok c = true -> templates_wf T ->
+  forall fuel strict t, well_formed t = true ->
+    snd (translate_t false fuel strict (print_templates T) c (print t)) = [].
+Proof.
+  intros T c Hc HT. induction fuel as [|f IH]; intros strict t Hwf; [reflexivity|].
+  cbn [translate_t].
+  destruct (if strict then missing_vars false c (print t) else []); [|reflexivity].
+  rewrite pass_if_t_uniform. cbn [text_of]. rewrite pass_if_nodes by auto.
+  destruct (if_nodes_wf c t Hwf) as [W1 F1].
+  destruct (pass_each_t_clean c (if_nodes c t) Hc W1 F1) as [E1 E2].
+  destruct (pass_each_t false c (taint FromTemplate (print (if_nodes c t)))) as [r2 l2].
+  cbn [fst snd] in *. subst l2.
+  pose proof (text_of_Inv r2 E2) as I2.
+  set (render := fun n => match lookup (print_templates T) n with
+                          | Some sq => Some (translate_t false f strict (print_templates T) c sq)
+                          | None => None
+                          end).
+  assert (Hr : forall n, match render n with Some (_, lg) => lg = [] | None => True end).
+  { intros n. unfold render. rewrite lookup_print_templates.
+    destruct (lookup T n) as [t'|] eqn:L; cbn [option_map]; [|exact I].
+    pose proof (IH strict t' (lookup_wf T n t' HT L)) as Hl.
+    destruct (translate_t false f strict (print_templates T) c (print t')). exact Hl. }
+  destruct (include_text_t_clean render (text_of r2) Hr I2) as [E3 E4].
+  fold render.
+  destruct (include_text_t false (resolve_includes_t render (text_of r2))) as [r3 l3].
+  cbn [fst snd] in *. subst l3.
+  destruct r3 as [s3|e]; [|reflexivity].
+  pose proof (E4 s3 eq_refl) as I3.
+  destruct (pass_filtered_t_clean c s3 I3) as [E5 E6].
+  destruct (pass_filtered_t false c s3) as [r4 l4]. cbn [fst snd] in *. subst l4.
+  destruct r4 as [s4|e]; [|reflexivity].
+  pose proof (E6 s4 eq_refl) as I4.
+  destruct (pass_default_t_clean c s4 I4) as [E7 I5].
+  destruct (pass_default_t false c s4) as [s5 l5]. cbn [fst snd] in *. subst l5.
+  destruct (pass_optional_t_clean c s5 I5) as [E8 E9].
+  destruct (pass_optional_t false c s5) as [r6 l6]. cbn [fst snd] in *. subst l6.
+  pose proof (text_of_Inv r6 E9) as I6.
+  destruct (pass_simple_t_clean (strict && negb false) c (text_of r6) I6) as [E10 _].
+  destruct (pass_simple_t false (strict && negb false) c (text_of r6)) as [r7 l7].
+  cbn [fst snd] in *. subst l7.
+  destruct r7; reflexivity.
+Qed.
+
+Theorem opacity_proof : forall strict T c t,
+  ctx_ok c = true ->
+  forallb (fun nt => well_formed (snd nt)) T = true -> well_formed t = true ->
+  snd (render_taint strict (print_templates T) c (print t)) = [].
+Proof.
+  intros. unfold render_taint. apply taint_log_empty; auto using templates_wf_b.
 Qed.
